@@ -1,12 +1,34 @@
 
+(** val negb : bool -> bool **)
+
+let negb = function
+| true -> false
+| false -> true
+
 type nat =
 | O
 | S of nat
+
+type ('a, 'b) sum =
+| Inl of 'a
+| Inr of 'b
+
+(** val fst : ('a1 * 'a2) -> 'a1 **)
+
+let fst = function
+| (x, _) -> x
 
 (** val snd : ('a1 * 'a2) -> 'a2 **)
 
 let snd = function
 | (_, y) -> y
+
+(** val app : 'a1 list -> 'a1 list -> 'a1 list **)
+
+let rec app l m =
+  match l with
+  | [] -> m
+  | a :: l1 -> a :: (app l1 m)
 
 type comparison =
 | Eq
@@ -22,27 +44,73 @@ let compOpp = function
 
 module Coq__1 = struct
  (** val add : nat -> nat -> nat **)
- let rec add n m =
-   match n with
+ let rec add n0 m =
+   match n0 with
    | O -> m
    | S p -> S (add p m)
 end
 include Coq__1
+
+(** val sub : nat -> nat -> nat **)
+
+let rec sub n0 m =
+  match n0 with
+  | O -> n0
+  | S k -> (match m with
+            | O -> n0
+            | S l -> sub k l)
 
 type positive =
 | XI of positive
 | XO of positive
 | XH
 
+type n =
+| N0
+| Npos of positive
+
 type z =
 | Z0
 | Zpos of positive
 | Zneg of positive
 
+(** val bool_dec : bool -> bool -> bool **)
+
+let bool_dec b1 b2 =
+  if b1 then if b2 then true else false else if b2 then false else true
+
 (** val eqb : bool -> bool -> bool **)
 
 let eqb b1 b2 =
   if b1 then b2 else if b2 then false else true
+
+module Nat =
+ struct
+  (** val eqb : nat -> nat -> bool **)
+
+  let rec eqb n0 m =
+    match n0 with
+    | O -> (match m with
+            | O -> true
+            | S _ -> false)
+    | S n' -> (match m with
+               | O -> false
+               | S m' -> eqb n' m')
+
+  (** val leb : nat -> nat -> bool **)
+
+  let rec leb n0 m =
+    match n0 with
+    | O -> true
+    | S n' -> (match m with
+               | O -> false
+               | S m' -> leb n' m')
+
+  (** val ltb : nat -> nat -> bool **)
+
+  let ltb n0 m =
+    leb (S n0) m
+ end
 
 module Pos =
  struct
@@ -233,10 +301,10 @@ module Coq_Pos =
   (** val ggcdn :
       nat -> positive -> positive -> positive * (positive * positive) **)
 
-  let rec ggcdn n a b =
-    match n with
+  let rec ggcdn n0 a b =
+    match n0 with
     | O -> (XH, (a, b))
-    | S n0 ->
+    | S n1 ->
       (match a with
        | XI a' ->
          (match b with
@@ -244,21 +312,21 @@ module Coq_Pos =
             (match compare a' b' with
              | Eq -> (a, (XH, XH))
              | Lt ->
-               let (g, p) = ggcdn n0 (sub b' a') a in
+               let (g, p) = ggcdn n1 (sub b' a') a in
                let (ba, aa) = p in (g, (aa, (add aa (XO ba))))
              | Gt ->
-               let (g, p) = ggcdn n0 (sub a' b') b in
+               let (g, p) = ggcdn n1 (sub a' b') b in
                let (ab, bb) = p in (g, ((add bb (XO ab)), bb)))
           | XO b0 ->
-            let (g, p) = ggcdn n0 a b0 in
+            let (g, p) = ggcdn n1 a b0 in
             let (aa, bb) = p in (g, (aa, (XO bb)))
           | XH -> (XH, (a, XH)))
        | XO a0 ->
          (match b with
           | XI _ ->
-            let (g, p) = ggcdn n0 a0 b in
+            let (g, p) = ggcdn n1 a0 b in
             let (aa, bb) = p in (g, ((XO aa), bb))
-          | XO b0 -> let (g, p) = ggcdn n0 a0 b0 in ((XO g), p)
+          | XO b0 -> let (g, p) = ggcdn n1 a0 b0 in ((XO g), p)
           | XH -> (XH, (a, XH)))
        | XH -> (XH, (XH, b)))
 
@@ -267,11 +335,51 @@ module Coq_Pos =
   let ggcd a b =
     ggcdn (Coq__1.add (size_nat a) (size_nat b)) a b
 
+  (** val iter_op : ('a1 -> 'a1 -> 'a1) -> positive -> 'a1 -> 'a1 **)
+
+  let rec iter_op op p a =
+    match p with
+    | XI p0 -> op a (iter_op op p0 (op a a))
+    | XO p0 -> iter_op op p0 (op a a)
+    | XH -> a
+
+  (** val to_nat : positive -> nat **)
+
+  let to_nat x =
+    iter_op Coq__1.add x (S O)
+
   (** val of_succ_nat : nat -> positive **)
 
   let rec of_succ_nat = function
   | O -> XH
   | S x -> succ (of_succ_nat x)
+ end
+
+module N =
+ struct
+  (** val add : n -> n -> n **)
+
+  let add n0 m =
+    match n0 with
+    | N0 -> m
+    | Npos p -> (match m with
+                 | N0 -> n0
+                 | Npos q0 -> Npos (Coq_Pos.add p q0))
+
+  (** val mul : n -> n -> n **)
+
+  let mul n0 m =
+    match n0 with
+    | N0 -> N0
+    | Npos p -> (match m with
+                 | N0 -> N0
+                 | Npos q0 -> Npos (Coq_Pos.mul p q0))
+
+  (** val to_nat : n -> nat **)
+
+  let to_nat = function
+  | N0 -> O
+  | Npos p -> Coq_Pos.to_nat p
  end
 
 module Z =
@@ -342,8 +450,8 @@ module Z =
 
   (** val sub : z -> z -> z **)
 
-  let sub m n =
-    add m (opp n)
+  let sub m n0 =
+    add m (opp n0)
 
   (** val mul : z -> z -> z **)
 
@@ -420,7 +528,7 @@ module Z =
 
   let of_nat = function
   | O -> Z0
-  | S n0 -> Zpos (Coq_Pos.of_succ_nat n0)
+  | S n1 -> Zpos (Coq_Pos.of_succ_nat n1)
 
   (** val to_pos : z -> positive **)
 
@@ -530,8 +638,8 @@ let zeq_bool x y =
 
 (** val nth : nat -> 'a1 list -> 'a1 -> 'a1 **)
 
-let rec nth n l default =
-  match n with
+let rec nth n0 l default =
+  match n0 with
   | O -> (match l with
           | [] -> default
           | x :: _ -> x)
@@ -539,8 +647,41 @@ let rec nth n l default =
             | [] -> default
             | _ :: t -> nth m t default)
 
+(** val map : ('a1 -> 'a2) -> 'a1 list -> 'a2 list **)
+
+let rec map f = function
+| [] -> []
+| a :: t -> (f a) :: (map f t)
+
+(** val filter : ('a1 -> bool) -> 'a1 list -> 'a1 list **)
+
+let rec filter f = function
+| [] -> []
+| x :: l0 -> if f x then x :: (filter f l0) else filter f l0
+
 type ascii =
 | Ascii of bool * bool * bool * bool * bool * bool * bool * bool
+
+(** val ascii_dec : ascii -> ascii -> bool **)
+
+let ascii_dec a b =
+  let Ascii (b0, b1, b2, b3, b4, b5, b6, b7) = a in
+  let Ascii (b8, b9, b10, b11, b12, b13, b14, b15) = b in
+  if bool_dec b0 b8
+  then if bool_dec b1 b9
+       then if bool_dec b2 b10
+            then if bool_dec b3 b11
+                 then if bool_dec b4 b12
+                      then if bool_dec b5 b13
+                           then if bool_dec b6 b14
+                                then bool_dec b7 b15
+                                else false
+                           else false
+                      else false
+                 else false
+            else false
+       else false
+  else false
 
 (** val eqb0 : ascii -> ascii -> bool **)
 
@@ -561,6 +702,25 @@ let eqb0 a b =
   then eqb a7 b7
   else false
 
+(** val n_of_digits : bool list -> n **)
+
+let rec n_of_digits = function
+| [] -> N0
+| b :: l' ->
+  N.add (if b then Npos XH else N0) (N.mul (Npos (XO XH)) (n_of_digits l'))
+
+(** val n_of_ascii : ascii -> n **)
+
+let n_of_ascii = function
+| Ascii (a0, a1, a2, a3, a4, a5, a6, a7) ->
+  n_of_digits
+    (a0 :: (a1 :: (a2 :: (a3 :: (a4 :: (a5 :: (a6 :: (a7 :: []))))))))
+
+(** val nat_of_ascii : ascii -> nat **)
+
+let nat_of_ascii a =
+  N.to_nat (n_of_ascii a)
+
 type string =
 | EmptyString
 | String of ascii * string
@@ -577,6 +737,53 @@ let rec eqb1 s1 s2 =
     (match s2 with
      | EmptyString -> false
      | String (c2, s2') -> if eqb0 c1 c2 then eqb1 s1' s2' else false)
+
+(** val append : string -> string -> string **)
+
+let rec append s1 s2 =
+  match s1 with
+  | EmptyString -> s2
+  | String (c, s1') -> String (c, (append s1' s2))
+
+(** val length : string -> nat **)
+
+let rec length = function
+| EmptyString -> O
+| String (_, s') -> S (length s')
+
+(** val get : nat -> string -> ascii option **)
+
+let rec get n0 = function
+| EmptyString -> None
+| String (c, s') -> (match n0 with
+                     | O -> Some c
+                     | S n' -> get n' s')
+
+(** val substring : nat -> nat -> string -> string **)
+
+let rec substring n0 m s =
+  match n0 with
+  | O ->
+    (match m with
+     | O -> EmptyString
+     | S m' ->
+       (match s with
+        | EmptyString -> s
+        | String (c, s') -> String (c, (substring O m' s'))))
+  | S n' ->
+    (match s with
+     | EmptyString -> s
+     | String (_, s') -> substring n' m s')
+
+(** val prefix : string -> string -> bool **)
+
+let rec prefix s1 s2 =
+  match s1 with
+  | EmptyString -> true
+  | String (a, s1') ->
+    (match s2 with
+     | EmptyString -> false
+     | String (b, s2') -> if ascii_dec a b then prefix s1' s2' else false)
 
 type q = { qnum : z; qden : positive }
 
@@ -644,7 +851,7 @@ let qred q0 =
 (** val qabs : q -> q **)
 
 let qabs x =
-  let { qnum = n; qden = d } = x in { qnum = (Z.abs n); qden = d }
+  let { qnum = n0; qden = d } = x in { qnum = (Z.abs n0); qden = d }
 
 type v =
 | VZ of z
@@ -677,17 +884,23 @@ let getS = function
 | VS s -> s
 | _ -> EmptyString
 
+(** val getL : v -> v list **)
+
+let getL = function
+| VL l -> l
+| _ -> []
+
 (** val getQ : v -> q **)
 
 let getQ = function
-| VZ n -> inject_Z n
+| VZ n0 -> inject_Z n0
 | VS _ -> { qnum = Z0; qden = XH }
 | VL l ->
   (match l with
    | [] -> { qnum = Z0; qden = XH }
    | v1 :: l0 ->
      (match v1 with
-      | VZ n ->
+      | VZ n0 ->
         (match l0 with
          | [] -> { qnum = Z0; qden = XH }
          | v2 :: l1 ->
@@ -696,7 +909,7 @@ let getQ = function
               (match l1 with
                | [] ->
                  (match d with
-                  | Zpos p -> { qnum = n; qden = p }
+                  | Zpos p -> { qnum = n0; qden = p }
                   | _ -> { qnum = Z0; qden = XH })
                | _ :: _ -> { qnum = Z0; qden = XH })
             | _ -> { qnum = Z0; qden = XH }))
@@ -705,6 +918,25 @@ let getQ = function
 type 'a res =
 | Ok of 'a
 | Err of string
+
+(** val bind : 'a1 res -> ('a1 -> 'a2 res) -> 'a2 res **)
+
+let bind r f =
+  match r with
+  | Ok a -> f a
+  | Err e -> Err e
+
+(** val mapM : ('a1 -> 'a2 res) -> 'a1 list -> 'a2 list res **)
+
+let rec mapM f = function
+| [] -> Ok []
+| x :: t -> bind (f x) (fun y -> bind (mapM f t) (fun ys -> Ok (y :: ys)))
+
+(** val vres : v res -> v **)
+
+let vres = function
+| Ok v0 -> vOk v0
+| Err e -> vErr e
 
 (** val qltb : q -> q -> bool **)
 
@@ -720,6 +952,255 @@ let qleb =
 
 let qsqr a =
   qmult a a
+
+(** val nl : ascii **)
+
+let nl =
+  Ascii (false, true, false, true, false, false, false, false)
+
+(** val is_space : ascii -> bool **)
+
+let is_space c =
+  let n0 = nat_of_ascii c in
+  (||)
+    ((||)
+      (Nat.eqb n0 (S (S (S (S (S (S (S (S (S (S (S (S (S (S (S (S (S (S (S (S
+        (S (S (S (S (S (S (S (S (S (S (S (S O)))))))))))))))))))))))))))))))))
+      ((&&) (Nat.leb (S (S (S (S (S (S (S (S (S O))))))))) n0)
+        (Nat.leb n0 (S (S (S (S (S (S (S (S (S (S (S (S (S O))))))))))))))))
+    ((&&)
+      (Nat.leb (S (S (S (S (S (S (S (S (S (S (S (S (S (S (S (S (S (S (S (S (S
+        (S (S (S (S (S (S (S O)))))))))))))))))))))))))))) n0)
+      (Nat.leb n0 (S (S (S (S (S (S (S (S (S (S (S (S (S (S (S (S (S (S (S (S
+        (S (S (S (S (S (S (S (S (S (S (S O)))))))))))))))))))))))))))))))))
+
+(** val is_digit : ascii -> bool **)
+
+let is_digit c =
+  let n0 = nat_of_ascii c in
+  (&&)
+    (Nat.leb (S (S (S (S (S (S (S (S (S (S (S (S (S (S (S (S (S (S (S (S (S
+      (S (S (S (S (S (S (S (S (S (S (S (S (S (S (S (S (S (S (S (S (S (S (S (S
+      (S (S (S O)))))))))))))))))))))))))))))))))))))))))))))))) n0)
+    (Nat.leb n0 (S (S (S (S (S (S (S (S (S (S (S (S (S (S (S (S (S (S (S (S
+      (S (S (S (S (S (S (S (S (S (S (S (S (S (S (S (S (S (S (S (S (S (S (S (S
+      (S (S (S (S (S (S (S (S (S (S (S (S (S
+      O))))))))))))))))))))))))))))))))))))))))))))))))))))))))))
+
+(** val digit_val : ascii -> z **)
+
+let digit_val c =
+  Z.sub (Z.of_nat (nat_of_ascii c)) (Zpos (XO (XO (XO (XO (XI XH))))))
+
+(** val lstrip : string -> string **)
+
+let rec lstrip s = match s with
+| EmptyString -> EmptyString
+| String (c, t) -> if is_space c then lstrip t else s
+
+(** val rev_str : string -> string -> string **)
+
+let rec rev_str acc = function
+| EmptyString -> acc
+| String (c, t) -> rev_str (String (c, acc)) t
+
+(** val rstrip : string -> string **)
+
+let rstrip s =
+  rev_str EmptyString (lstrip (rev_str EmptyString s))
+
+(** val strip : string -> string **)
+
+let strip s =
+  rstrip (lstrip s)
+
+(** val slice : nat -> nat -> string -> string **)
+
+let slice a b s =
+  substring a (sub b a) s
+
+(** val char_at : nat -> string -> string **)
+
+let char_at i s =
+  substring i (S O) s
+
+(** val repeat_char : ascii -> nat -> string **)
+
+let rec repeat_char c = function
+| O -> EmptyString
+| S k -> String (c, (repeat_char c k))
+
+(** val startswith : string -> string -> bool **)
+
+let startswith =
+  prefix
+
+(** val str_nonempty : string -> bool **)
+
+let str_nonempty = function
+| EmptyString -> false
+| String (_, _) -> true
+
+(** val is_substring : string -> string -> bool **)
+
+let rec is_substring a b =
+  (||) (prefix a b)
+    (match b with
+     | EmptyString -> false
+     | String (_, t) -> is_substring a t)
+
+(** val upto_nl : string -> string **)
+
+let rec upto_nl = function
+| EmptyString -> EmptyString
+| String (c, t) -> if eqb0 c nl then EmptyString else String (c, (upto_nl t))
+
+(** val split_nl_aux : string -> string -> string list **)
+
+let rec split_nl_aux cur = function
+| EmptyString -> (rev_str EmptyString cur) :: []
+| String (c, t) ->
+  if eqb0 c nl
+  then (rev_str EmptyString cur) :: (split_nl_aux EmptyString t)
+  else split_nl_aux (String (c, cur)) t
+
+(** val split_nl : string -> string list **)
+
+let split_nl s =
+  split_nl_aux EmptyString s
+
+(** val readlines_aux : string -> string -> string list **)
+
+let rec readlines_aux cur = function
+| EmptyString ->
+  (match cur with
+   | EmptyString -> []
+   | String (_, _) -> (rev_str EmptyString cur) :: [])
+| String (c, t) ->
+  if eqb0 c nl
+  then (rev_str EmptyString (String (c, cur))) :: (readlines_aux EmptyString
+                                                    t)
+  else readlines_aux (String (c, cur)) t
+
+(** val readlines : string -> string list **)
+
+let readlines s =
+  readlines_aux EmptyString s
+
+(** val count_sub_aux : nat -> string -> string -> nat **)
+
+let rec count_sub_aux fuel p s =
+  match fuel with
+  | O -> O
+  | S f ->
+    (match s with
+     | EmptyString -> O
+     | String (_, t) ->
+       if prefix p s
+       then S (count_sub_aux f p (substring (length p) (length s) s))
+       else count_sub_aux f p t)
+
+(** val count_sub : string -> string -> nat **)
+
+let count_sub p s =
+  count_sub_aux (S (length s)) p s
+
+(** val all_digits : string -> bool **)
+
+let rec all_digits = function
+| EmptyString -> true
+| String (c, t) -> (&&) (is_digit c) (all_digits t)
+
+(** val digits_val : z -> string -> z **)
+
+let rec digits_val acc = function
+| EmptyString -> acc
+| String (c, t) ->
+  digits_val (Z.add (Z.mul acc (Zpos (XO (XI (XO XH))))) (digit_val c)) t
+
+type 'a numparse =
+| NumOk of 'a
+| NumBad
+| NumOutOfModel
+
+(** val has_char : ascii -> string -> bool **)
+
+let rec has_char c = function
+| EmptyString -> false
+| String (d, t) -> (||) (eqb0 c d) (has_char c t)
+
+(** val exotic_numeral : string -> bool **)
+
+let exotic_numeral s =
+  (||)
+    ((||)
+      ((||)
+        ((||)
+          ((||)
+            ((||)
+              (has_char (Ascii (true, true, true, true, true, false, true,
+                false)) s)
+              (has_char (Ascii (true, false, true, false, false, true, true,
+                false)) s))
+            (has_char (Ascii (true, false, true, false, false, false, true,
+              false)) s))
+          (has_char (Ascii (false, true, true, true, false, true, true,
+            false)) s))
+        (has_char (Ascii (false, true, true, true, false, false, true,
+          false)) s))
+      (has_char (Ascii (true, false, false, true, false, true, true, false))
+        s))
+    (has_char (Ascii (true, false, false, true, false, false, true, false)) s)
+
+(** val split_sign : string -> bool * string **)
+
+let split_sign s = match s with
+| EmptyString -> (false, s)
+| String (a, t) ->
+  let Ascii (b, b0, b1, b2, b3, b4, b5, b6) = a in
+  if b
+  then if b0
+       then if b1
+            then (false, s)
+            else if b2
+                 then if b3
+                      then (false, s)
+                      else if b4
+                           then if b5
+                                then (false, s)
+                                else if b6 then (false, s) else (false, t)
+                           else (false, s)
+                 else (false, s)
+       else if b1
+            then if b2
+                 then if b3
+                      then (false, s)
+                      else if b4
+                           then if b5
+                                then (false, s)
+                                else if b6 then (false, s) else (true, t)
+                           else (false, s)
+                 else (false, s)
+            else (false, s)
+  else (false, s)
+
+(** val parse_int : string -> z numparse **)
+
+let parse_int s0 =
+  let s = strip s0 in
+  let (neg, body) = split_sign s in
+  if (&&) (str_nonempty body) (all_digits body)
+  then NumOk (if neg then Z.opp (digits_val Z0 body) else digits_val Z0 body)
+  else if exotic_numeral s then NumOutOfModel else NumBad
+
+(** val split_dot : string -> string * string option **)
+
+let rec split_dot = function
+| EmptyString -> (EmptyString, None)
+| String (c, t) ->
+  if eqb0 c (Ascii (false, true, true, true, false, true, false, false))
+  then (EmptyString, (Some t))
+  else let (a, b) = split_dot t in ((String (c, a)), b)
 
 (** val qfloor' : q -> z **)
 
@@ -767,8 +1248,25 @@ let b64 q0 =
 
 (** val pow10 : nat -> z **)
 
-let pow10 n =
-  Z.pow (Zpos (XO (XI (XO XH)))) (Z.of_nat n)
+let pow10 n0 =
+  Z.pow (Zpos (XO (XI (XO XH)))) (Z.of_nat n0)
+
+(** val parse_float : string -> q numparse **)
+
+let parse_float s0 =
+  let s = strip s0 in
+  let (neg, body) = split_sign s in
+  let (ip, fp) = split_dot body in
+  let fpart = match fp with
+              | Some f -> f
+              | None -> EmptyString in
+  if (&&) ((&&) (all_digits ip) (all_digits fpart))
+       ((||) (str_nonempty ip) (str_nonempty fpart))
+  then let n0 = digits_val Z0 (append ip fpart) in
+       let q0 = qred { qnum = n0; qden = (Z.to_pos (pow10 (length fpart))) }
+       in
+       NumOk (b64 (if neg then qred (qopp q0) else q0))
+  else if exotic_numeral s then NumOutOfModel else NumBad
 
 (** val round_dec : nat -> q -> q **)
 
@@ -778,6 +1276,26 @@ let round_dec k q0 =
      then Z.opp (round_half_even (qmult (qabs q0) (inject_Z (pow10 k))))
      else round_half_even (qmult q0 (inject_Z (pow10 k)))); qden =
     (Z.to_pos (pow10 k)) }
+
+(** val repeat_str : string -> nat -> string **)
+
+let rec repeat_str s = function
+| O -> EmptyString
+| S k -> append s (repeat_str s k)
+
+type blank_default =
+| DConst of q
+| DChainFromSegID
+| DElementGuess
+
+type val0 =
+| VInt of z
+| VReal of q
+| VText of string
+| VBlob
+| VNull
+
+type row = val0 list
 
 (** val capri_src : q -> q -> q -> string -> string res **)
 
@@ -1112,14 +1630,14 @@ let t05 =
 let levelb k f l i =
   match k with
   | O -> true
-  | S n ->
-    (match n with
+  | S n0 ->
+    (match n0 with
      | O ->
        (&&) (qleb t01 f)
          ((||) (qleb l { qnum = (Zpos (XO (XI (XO XH)))); qden = XH })
            (qleb i { qnum = (Zpos (XO (XO XH))); qden = XH }))
-     | S n0 ->
-       (match n0 with
+     | S n1 ->
+       (match n1 with
         | O ->
           (&&) (qleb t03 f)
             ((||) (qleb l { qnum = (Zpos (XI (XO XH))); qden = XH })
@@ -1151,6 +1669,1333 @@ let dockq_formula f l i d1 d2 =
         (qplus { qnum = (Zpos XH); qden = XH }
           (qmult (qdiv i d2) (qdiv i d2))))) { qnum = (Zpos (XI XH)); qden =
     XH }
+
+(** val col_src : (string * string) list **)
+
+let col_src =
+  ((String ((Ascii (true, true, false, false, true, true, true, false)),
+    (String ((Ascii (true, false, true, false, false, true, true, false)),
+    (String ((Ascii (false, true, false, false, true, true, true, false)),
+    (String ((Ascii (true, false, false, true, false, true, true, false)),
+    (String ((Ascii (true, false, false, false, false, true, true, false)),
+    (String ((Ascii (false, false, true, true, false, true, true, false)),
+    EmptyString)))))))))))), (String ((Ascii (true, false, false, true,
+    false, false, true, false)), (String ((Ascii (false, true, true, true,
+    false, false, true, false)), (String ((Ascii (false, false, true, false,
+    true, false, true, false)), EmptyString))))))) :: (((String ((Ascii
+    (false, true, true, true, false, true, true, false)), (String ((Ascii
+    (true, false, false, false, false, true, true, false)), (String ((Ascii
+    (true, false, true, true, false, true, true, false)), (String ((Ascii
+    (true, false, true, false, false, true, true, false)),
+    EmptyString)))))))), (String ((Ascii (false, false, true, false, true,
+    false, true, false)), (String ((Ascii (true, false, true, false, false,
+    false, true, false)), (String ((Ascii (false, false, false, true, true,
+    false, true, false)), (String ((Ascii (false, false, true, false, true,
+    false, true, false)), EmptyString))))))))) :: (((String ((Ascii (true,
+    false, false, false, false, true, true, false)), (String ((Ascii (false,
+    false, true, true, false, true, true, false)), (String ((Ascii (false,
+    false, true, false, true, true, true, false)), (String ((Ascii (false,
+    false, true, true, false, false, true, false)), (String ((Ascii (true,
+    true, true, true, false, true, true, false)), (String ((Ascii (true,
+    true, false, false, false, true, true, false)), EmptyString)))))))))))),
+    (String ((Ascii (false, false, true, false, true, false, true, false)),
+    (String ((Ascii (true, false, true, false, false, false, true, false)),
+    (String ((Ascii (false, false, false, true, true, false, true, false)),
+    (String ((Ascii (false, false, true, false, true, false, true, false)),
+    EmptyString))))))))) :: (((String ((Ascii (false, true, false, false,
+    true, true, true, false)), (String ((Ascii (true, false, true, false,
+    false, true, true, false)), (String ((Ascii (true, true, false, false,
+    true, true, true, false)), (String ((Ascii (false, true, true, true,
+    false, false, true, false)), (String ((Ascii (true, false, false, false,
+    false, true, true, false)), (String ((Ascii (true, false, true, true,
+    false, true, true, false)), (String ((Ascii (true, false, true, false,
+    false, true, true, false)), EmptyString)))))))))))))), (String ((Ascii
+    (false, false, true, false, true, false, true, false)), (String ((Ascii
+    (true, false, true, false, false, false, true, false)), (String ((Ascii
+    (false, false, false, true, true, false, true, false)), (String ((Ascii
+    (false, false, true, false, true, false, true, false)),
+    EmptyString))))))))) :: (((String ((Ascii (true, true, false, false,
+    false, true, true, false)), (String ((Ascii (false, false, false, true,
+    false, true, true, false)), (String ((Ascii (true, false, false, false,
+    false, true, true, false)), (String ((Ascii (true, false, false, true,
+    false, true, true, false)), (String ((Ascii (false, true, true, true,
+    false, true, true, false)), (String ((Ascii (true, false, false, true,
+    false, false, true, false)), (String ((Ascii (false, false, true, false,
+    false, false, true, false)), EmptyString)))))))))))))), (String ((Ascii
+    (false, false, true, false, true, false, true, false)), (String ((Ascii
+    (true, false, true, false, false, false, true, false)), (String ((Ascii
+    (false, false, false, true, true, false, true, false)), (String ((Ascii
+    (false, false, true, false, true, false, true, false)),
+    EmptyString))))))))) :: (((String ((Ascii (false, true, false, false,
+    true, true, true, false)), (String ((Ascii (true, false, true, false,
+    false, true, true, false)), (String ((Ascii (true, true, false, false,
+    true, true, true, false)), (String ((Ascii (true, true, false, false,
+    true, false, true, false)), (String ((Ascii (true, false, true, false,
+    false, true, true, false)), (String ((Ascii (true, false, false, false,
+    true, true, true, false)), EmptyString)))))))))))), (String ((Ascii
+    (true, false, false, true, false, false, true, false)), (String ((Ascii
+    (false, true, true, true, false, false, true, false)), (String ((Ascii
+    (false, false, true, false, true, false, true, false)),
+    EmptyString))))))) :: (((String ((Ascii (true, false, false, true, false,
+    true, true, false)), (String ((Ascii (true, true, false, false, false,
+    false, true, false)), (String ((Ascii (true, true, true, true, false,
+    true, true, false)), (String ((Ascii (false, false, true, false, false,
+    true, true, false)), (String ((Ascii (true, false, true, false, false,
+    true, true, false)), EmptyString)))))))))), (String ((Ascii (false,
+    false, true, false, true, false, true, false)), (String ((Ascii (true,
+    false, true, false, false, false, true, false)), (String ((Ascii (false,
+    false, false, true, true, false, true, false)), (String ((Ascii (false,
+    false, true, false, true, false, true, false)),
+    EmptyString))))))))) :: (((String ((Ascii (false, false, false, true,
+    true, true, true, false)), EmptyString)), (String ((Ascii (false, true,
+    false, false, true, false, true, false)), (String ((Ascii (true, false,
+    true, false, false, false, true, false)), (String ((Ascii (true, false,
+    false, false, false, false, true, false)), (String ((Ascii (false, false,
+    true, true, false, false, true, false)),
+    EmptyString))))))))) :: (((String ((Ascii (true, false, false, true,
+    true, true, true, false)), EmptyString)), (String ((Ascii (false, true,
+    false, false, true, false, true, false)), (String ((Ascii (true, false,
+    true, false, false, false, true, false)), (String ((Ascii (true, false,
+    false, false, false, false, true, false)), (String ((Ascii (false, false,
+    true, true, false, false, true, false)),
+    EmptyString))))))))) :: (((String ((Ascii (false, true, false, true,
+    true, true, true, false)), EmptyString)), (String ((Ascii (false, true,
+    false, false, true, false, true, false)), (String ((Ascii (true, false,
+    true, false, false, false, true, false)), (String ((Ascii (true, false,
+    false, false, false, false, true, false)), (String ((Ascii (false, false,
+    true, true, false, false, true, false)),
+    EmptyString))))))))) :: (((String ((Ascii (true, true, true, true, false,
+    true, true, false)), (String ((Ascii (true, true, false, false, false,
+    true, true, false)), (String ((Ascii (true, true, false, false, false,
+    true, true, false)), EmptyString)))))), (String ((Ascii (false, true,
+    false, false, true, false, true, false)), (String ((Ascii (true, false,
+    true, false, false, false, true, false)), (String ((Ascii (true, false,
+    false, false, false, false, true, false)), (String ((Ascii (false, false,
+    true, true, false, false, true, false)),
+    EmptyString))))))))) :: (((String ((Ascii (false, false, true, false,
+    true, true, true, false)), (String ((Ascii (true, false, true, false,
+    false, true, true, false)), (String ((Ascii (true, false, true, true,
+    false, true, true, false)), (String ((Ascii (false, false, false, false,
+    true, true, true, false)), EmptyString)))))))), (String ((Ascii (false,
+    true, false, false, true, false, true, false)), (String ((Ascii (true,
+    false, true, false, false, false, true, false)), (String ((Ascii (true,
+    false, false, false, false, false, true, false)), (String ((Ascii (false,
+    false, true, true, false, false, true, false)),
+    EmptyString))))))))) :: (((String ((Ascii (true, false, true, false,
+    false, true, true, false)), (String ((Ascii (false, false, true, true,
+    false, true, true, false)), (String ((Ascii (true, false, true, false,
+    false, true, true, false)), (String ((Ascii (true, false, true, true,
+    false, true, true, false)), (String ((Ascii (true, false, true, false,
+    false, true, true, false)), (String ((Ascii (false, true, true, true,
+    false, true, true, false)), (String ((Ascii (false, false, true, false,
+    true, true, true, false)), EmptyString)))))))))))))), (String ((Ascii
+    (false, false, true, false, true, false, true, false)), (String ((Ascii
+    (true, false, true, false, false, false, true, false)), (String ((Ascii
+    (false, false, false, true, true, false, true, false)), (String ((Ascii
+    (false, false, true, false, true, false, true, false)),
+    EmptyString))))))))) :: (((String ((Ascii (true, false, true, true,
+    false, true, true, false)), (String ((Ascii (true, true, true, true,
+    false, true, true, false)), (String ((Ascii (false, false, true, false,
+    false, true, true, false)), (String ((Ascii (true, false, true, false,
+    false, true, true, false)), (String ((Ascii (false, false, true, true,
+    false, true, true, false)), EmptyString)))))))))), (String ((Ascii (true,
+    false, false, true, false, false, true, false)), (String ((Ascii (false,
+    true, true, true, false, false, true, false)), (String ((Ascii (false,
+    false, true, false, true, false, true, false)),
+    EmptyString))))))) :: [])))))))))))))
+
+(** val delimiter_src : (string * (nat * nat)) list **)
+
+let delimiter_src =
+  ((String ((Ascii (true, true, false, false, true, true, true, false)),
+    (String ((Ascii (true, false, true, false, false, true, true, false)),
+    (String ((Ascii (false, true, false, false, true, true, true, false)),
+    (String ((Ascii (true, false, false, true, false, true, true, false)),
+    (String ((Ascii (true, false, false, false, false, true, true, false)),
+    (String ((Ascii (false, false, true, true, false, true, true, false)),
+    EmptyString)))))))))))), ((S (S (S (S (S (S O)))))), (S (S (S (S (S (S (S
+    (S (S (S (S O))))))))))))) :: (((String ((Ascii (false, true, true, true,
+    false, true, true, false)), (String ((Ascii (true, false, false, false,
+    false, true, true, false)), (String ((Ascii (true, false, true, true,
+    false, true, true, false)), (String ((Ascii (true, false, true, false,
+    false, true, true, false)), EmptyString)))))))), ((S (S (S (S (S (S (S (S
+    (S (S (S (S O)))))))))))), (S (S (S (S (S (S (S (S (S (S (S (S (S (S (S
+    (S O)))))))))))))))))) :: (((String ((Ascii (true, false, false, false,
+    false, true, true, false)), (String ((Ascii (false, false, true, true,
+    false, true, true, false)), (String ((Ascii (false, false, true, false,
+    true, true, true, false)), (String ((Ascii (false, false, true, true,
+    false, false, true, false)), (String ((Ascii (true, true, true, true,
+    false, true, true, false)), (String ((Ascii (true, true, false, false,
+    false, true, true, false)), EmptyString)))))))))))), ((S (S (S (S (S (S
+    (S (S (S (S (S (S (S (S (S (S O)))))))))))))))), (S (S (S (S (S (S (S (S
+    (S (S (S (S (S (S (S (S (S O))))))))))))))))))) :: (((String ((Ascii
+    (false, true, false, false, true, true, true, false)), (String ((Ascii
+    (true, false, true, false, false, true, true, false)), (String ((Ascii
+    (true, true, false, false, true, true, true, false)), (String ((Ascii
+    (false, true, true, true, false, false, true, false)), (String ((Ascii
+    (true, false, false, false, false, true, true, false)), (String ((Ascii
+    (true, false, true, true, false, true, true, false)), (String ((Ascii
+    (true, false, true, false, false, true, true, false)),
+    EmptyString)))))))))))))), ((S (S (S (S (S (S (S (S (S (S (S (S (S (S (S
+    (S (S O))))))))))))))))), (S (S (S (S (S (S (S (S (S (S (S (S (S (S (S (S
+    (S (S (S (S O)))))))))))))))))))))) :: (((String ((Ascii (true, true,
+    false, false, false, true, true, false)), (String ((Ascii (false, false,
+    false, true, false, true, true, false)), (String ((Ascii (true, false,
+    false, false, false, true, true, false)), (String ((Ascii (true, false,
+    false, true, false, true, true, false)), (String ((Ascii (false, true,
+    true, true, false, true, true, false)), (String ((Ascii (true, false,
+    false, true, false, false, true, false)), (String ((Ascii (false, false,
+    true, false, false, false, true, false)), EmptyString)))))))))))))), ((S
+    (S (S (S (S (S (S (S (S (S (S (S (S (S (S (S (S (S (S (S (S
+    O))))))))))))))))))))), (S (S (S (S (S (S (S (S (S (S (S (S (S (S (S (S
+    (S (S (S (S (S (S O)))))))))))))))))))))))) :: (((String ((Ascii (false,
+    true, false, false, true, true, true, false)), (String ((Ascii (true,
+    false, true, false, false, true, true, false)), (String ((Ascii (true,
+    true, false, false, true, true, true, false)), (String ((Ascii (true,
+    true, false, false, true, false, true, false)), (String ((Ascii (true,
+    false, true, false, false, true, true, false)), (String ((Ascii (true,
+    false, false, false, true, true, true, false)), EmptyString)))))))))))),
+    ((S (S (S (S (S (S (S (S (S (S (S (S (S (S (S (S (S (S (S (S (S (S
+    O)))))))))))))))))))))), (S (S (S (S (S (S (S (S (S (S (S (S (S (S (S (S
+    (S (S (S (S (S (S (S (S (S (S O)))))))))))))))))))))))))))) :: (((String
+    ((Ascii (true, false, false, true, false, true, true, false)), (String
+    ((Ascii (true, true, false, false, false, false, true, false)), (String
+    ((Ascii (true, true, true, true, false, true, true, false)), (String
+    ((Ascii (false, false, true, false, false, true, true, false)), (String
+    ((Ascii (true, false, true, false, false, true, true, false)),
+    EmptyString)))))))))), ((S (S (S (S (S (S (S (S (S (S (S (S (S (S (S (S
+    (S (S (S (S (S (S (S (S (S (S O)))))))))))))))))))))))))), (S (S (S (S (S
+    (S (S (S (S (S (S (S (S (S (S (S (S (S (S (S (S (S (S (S (S (S (S
+    O))))))))))))))))))))))))))))) :: (((String ((Ascii (false, false, false,
+    true, true, true, true, false)), EmptyString)), ((S (S (S (S (S (S (S (S
+    (S (S (S (S (S (S (S (S (S (S (S (S (S (S (S (S (S (S (S (S (S (S
+    O)))))))))))))))))))))))))))))), (S (S (S (S (S (S (S (S (S (S (S (S (S
+    (S (S (S (S (S (S (S (S (S (S (S (S (S (S (S (S (S (S (S (S (S (S (S (S
+    (S O)))))))))))))))))))))))))))))))))))))))) :: (((String ((Ascii (true,
+    false, false, true, true, true, true, false)), EmptyString)), ((S (S (S
+    (S (S (S (S (S (S (S (S (S (S (S (S (S (S (S (S (S (S (S (S (S (S (S (S
+    (S (S (S (S (S (S (S (S (S (S (S O)))))))))))))))))))))))))))))))))))))),
+    (S (S (S (S (S (S (S (S (S (S (S (S (S (S (S (S (S (S (S (S (S (S (S (S
+    (S (S (S (S (S (S (S (S (S (S (S (S (S (S (S (S (S (S (S (S (S (S
+    O)))))))))))))))))))))))))))))))))))))))))))))))) :: (((String ((Ascii
+    (false, true, false, true, true, true, true, false)), EmptyString)), ((S
+    (S (S (S (S (S (S (S (S (S (S (S (S (S (S (S (S (S (S (S (S (S (S (S (S
+    (S (S (S (S (S (S (S (S (S (S (S (S (S (S (S (S (S (S (S (S (S
+    O)))))))))))))))))))))))))))))))))))))))))))))), (S (S (S (S (S (S (S (S
+    (S (S (S (S (S (S (S (S (S (S (S (S (S (S (S (S (S (S (S (S (S (S (S (S
+    (S (S (S (S (S (S (S (S (S (S (S (S (S (S (S (S (S (S (S (S (S (S
+    O)))))))))))))))))))))))))))))))))))))))))))))))))))))))) :: (((String
+    ((Ascii (true, true, true, true, false, true, true, false)), (String
+    ((Ascii (true, true, false, false, false, true, true, false)), (String
+    ((Ascii (true, true, false, false, false, true, true, false)),
+    EmptyString)))))), ((S (S (S (S (S (S (S (S (S (S (S (S (S (S (S (S (S (S
+    (S (S (S (S (S (S (S (S (S (S (S (S (S (S (S (S (S (S (S (S (S (S (S (S
+    (S (S (S (S (S (S (S (S (S (S (S (S
+    O)))))))))))))))))))))))))))))))))))))))))))))))))))))), (S (S (S (S (S
+    (S (S (S (S (S (S (S (S (S (S (S (S (S (S (S (S (S (S (S (S (S (S (S (S
+    (S (S (S (S (S (S (S (S (S (S (S (S (S (S (S (S (S (S (S (S (S (S (S (S
+    (S (S (S (S (S (S (S
+    O)))))))))))))))))))))))))))))))))))))))))))))))))))))))))))))) :: (((String
+    ((Ascii (false, false, true, false, true, true, true, false)), (String
+    ((Ascii (true, false, true, false, false, true, true, false)), (String
+    ((Ascii (true, false, true, true, false, true, true, false)), (String
+    ((Ascii (false, false, false, false, true, true, true, false)),
+    EmptyString)))))))), ((S (S (S (S (S (S (S (S (S (S (S (S (S (S (S (S (S
+    (S (S (S (S (S (S (S (S (S (S (S (S (S (S (S (S (S (S (S (S (S (S (S (S
+    (S (S (S (S (S (S (S (S (S (S (S (S (S (S (S (S (S (S (S
+    O)))))))))))))))))))))))))))))))))))))))))))))))))))))))))))), (S (S (S
+    (S (S (S (S (S (S (S (S (S (S (S (S (S (S (S (S (S (S (S (S (S (S (S (S
+    (S (S (S (S (S (S (S (S (S (S (S (S (S (S (S (S (S (S (S (S (S (S (S (S
+    (S (S (S (S (S (S (S (S (S (S (S (S (S (S (S
+    O)))))))))))))))))))))))))))))))))))))))))))))))))))))))))))))))))))) :: (((String
+    ((Ascii (true, false, true, false, false, true, true, false)), (String
+    ((Ascii (false, false, true, true, false, true, true, false)), (String
+    ((Ascii (true, false, true, false, false, true, true, false)), (String
+    ((Ascii (true, false, true, true, false, true, true, false)), (String
+    ((Ascii (true, false, true, false, false, true, true, false)), (String
+    ((Ascii (false, true, true, true, false, true, true, false)), (String
+    ((Ascii (false, false, true, false, true, true, true, false)),
+    EmptyString)))))))))))))), ((S (S (S (S (S (S (S (S (S (S (S (S (S (S (S
+    (S (S (S (S (S (S (S (S (S (S (S (S (S (S (S (S (S (S (S (S (S (S (S (S
+    (S (S (S (S (S (S (S (S (S (S (S (S (S (S (S (S (S (S (S (S (S (S (S (S
+    (S (S (S (S (S (S (S (S (S (S (S (S (S
+    O)))))))))))))))))))))))))))))))))))))))))))))))))))))))))))))))))))))))))))),
+    (S (S (S (S (S (S (S (S (S (S (S (S (S (S (S (S (S (S (S (S (S (S (S (S
+    (S (S (S (S (S (S (S (S (S (S (S (S (S (S (S (S (S (S (S (S (S (S (S (S
+    (S (S (S (S (S (S (S (S (S (S (S (S (S (S (S (S (S (S (S (S (S (S (S (S
+    (S (S (S (S (S (S
+    O)))))))))))))))))))))))))))))))))))))))))))))))))))))))))))))))))))))))))))))))) :: []))))))))))))
+
+(** val atom_prefix_src : string **)
+
+let atom_prefix_src =
+  String ((Ascii (true, false, false, false, false, false, true, false)),
+    (String ((Ascii (false, false, true, false, true, false, true, false)),
+    (String ((Ascii (true, true, true, true, false, false, true, false)),
+    (String ((Ascii (true, false, true, true, false, false, true, false)),
+    EmptyString)))))))
+
+(** val endmdl_prefix_src : string **)
+
+let endmdl_prefix_src =
+  String ((Ascii (true, false, true, false, false, false, true, false)),
+    (String ((Ascii (false, true, true, true, false, false, true, false)),
+    (String ((Ascii (false, false, true, false, false, false, true, false)),
+    (String ((Ascii (true, false, true, true, false, false, true, false)),
+    (String ((Ascii (false, false, true, false, false, false, true, false)),
+    (String ((Ascii (false, false, true, true, false, false, true, false)),
+    EmptyString)))))))))))
+
+(** val int_tag_src : string **)
+
+let int_tag_src =
+  String ((Ascii (true, false, false, true, false, false, true, false)),
+    (String ((Ascii (false, true, true, true, false, false, true, false)),
+    (String ((Ascii (false, false, true, false, true, false, true, false)),
+    EmptyString)))))
+
+(** val real_tag_src : string **)
+
+let real_tag_src =
+  String ((Ascii (false, true, false, false, true, false, true, false)),
+    (String ((Ascii (true, false, true, false, false, false, true, false)),
+    (String ((Ascii (true, false, false, false, false, false, true, false)),
+    (String ((Ascii (false, false, true, true, false, false, true, false)),
+    EmptyString)))))))
+
+(** val blank_defaults_src : (string * blank_default) list **)
+
+let blank_defaults_src =
+  ((String ((Ascii (true, true, false, false, false, true, true, false)),
+    (String ((Ascii (false, false, false, true, false, true, true, false)),
+    (String ((Ascii (true, false, false, false, false, true, true, false)),
+    (String ((Ascii (true, false, false, true, false, true, true, false)),
+    (String ((Ascii (false, true, true, true, false, true, true, false)),
+    (String ((Ascii (true, false, false, true, false, false, true, false)),
+    (String ((Ascii (false, false, true, false, false, false, true, false)),
+    EmptyString)))))))))))))), DChainFromSegID) :: (((String ((Ascii (true,
+    true, true, true, false, true, true, false)), (String ((Ascii (true,
+    true, false, false, false, true, true, false)), (String ((Ascii (true,
+    true, false, false, false, true, true, false)), EmptyString)))))),
+    (DConst { qnum = (Zpos XH); qden = XH })) :: (((String ((Ascii (false,
+    false, true, false, true, true, true, false)), (String ((Ascii (true,
+    false, true, false, false, true, true, false)), (String ((Ascii (true,
+    false, true, true, false, true, true, false)), (String ((Ascii (false,
+    false, false, false, true, true, true, false)), EmptyString)))))))),
+    (DConst { qnum = (Zpos (XO (XI (XO XH)))); qden = XH })) :: (((String
+    ((Ascii (true, false, true, false, false, true, true, false)), (String
+    ((Ascii (false, false, true, true, false, true, true, false)), (String
+    ((Ascii (true, false, true, false, false, true, true, false)), (String
+    ((Ascii (true, false, true, true, false, true, true, false)), (String
+    ((Ascii (true, false, true, false, false, true, true, false)), (String
+    ((Ascii (false, true, true, true, false, true, true, false)), (String
+    ((Ascii (false, false, true, false, true, true, true, false)),
+    EmptyString)))))))))))))), DElementGuess) :: [])))
+
+(** val linelength_src : string -> string res **)
+
+let linelength_src pdb_line_1 =
+  let linelen_2 = length pdb_line_1 in
+  if Nat.ltb linelen_2 (S (S (S (S (S (S (S (S (S (S (S (S (S (S (S (S (S (S
+       (S (S (S (S (S (S (S (S (S (S (S (S (S (S (S (S (S (S (S (S (S (S (S
+       (S (S (S (S (S (S (S (S (S (S (S (S (S (S (S (S (S (S (S (S (S (S (S
+       (S (S (S (S (S (S (S (S (S (S (S (S (S (S (S (S
+       O))))))))))))))))))))))))))))))))))))))))))))))))))))))))))))))))))))))))))))))))
+  then let pdb_line_3 =
+         append pdb_line_1
+           (repeat_str (String ((Ascii (false, false, false, false, false,
+             true, false, false)), EmptyString))
+             (sub (S (S (S (S (S (S (S (S (S (S (S (S (S (S (S (S (S (S (S (S
+               (S (S (S (S (S (S (S (S (S (S (S (S (S (S (S (S (S (S (S (S (S
+               (S (S (S (S (S (S (S (S (S (S (S (S (S (S (S (S (S (S (S (S (S
+               (S (S (S (S (S (S (S (S (S (S (S (S (S (S (S (S (S (S
+               O))))))))))))))))))))))))))))))))))))))))))))))))))))))))))))))))))))))))))))))))
+               linelen_2))
+       in
+       Ok pdb_line_3
+  else if Nat.ltb (S (S (S (S (S (S (S (S (S (S (S (S (S (S (S (S (S (S (S (S
+            (S (S (S (S (S (S (S (S (S (S (S (S (S (S (S (S (S (S (S (S (S (S
+            (S (S (S (S (S (S (S (S (S (S (S (S (S (S (S (S (S (S (S (S (S (S
+            (S (S (S (S (S (S (S (S (S (S (S (S (S (S (S (S
+            O))))))))))))))))))))))))))))))))))))))))))))))))))))))))))))))))))))))))))))))))
+            linelen_2
+       then Err (String ((Ascii (false, true, true, false, true, false, true,
+              false)), (String ((Ascii (true, false, false, false, false,
+              true, true, false)), (String ((Ascii (false, false, true, true,
+              false, true, true, false)), (String ((Ascii (true, false, true,
+              false, true, true, true, false)), (String ((Ascii (true, false,
+              true, false, false, true, true, false)), (String ((Ascii (true,
+              false, true, false, false, false, true, false)), (String
+              ((Ascii (false, true, false, false, true, true, true, false)),
+              (String ((Ascii (false, true, false, false, true, true, true,
+              false)), (String ((Ascii (true, true, true, true, false, true,
+              true, false)), (String ((Ascii (false, true, false, false,
+              true, true, true, false)), EmptyString))))))))))))))))))))
+       else Ok pdb_line_1
+
+(** val get_chainID_src : string -> string res **)
+
+let get_chainID_src pdb_line_1 =
+  let segID_2 =
+    strip
+      (slice (S (S (S (S (S (S (S (S (S (S (S (S (S (S (S (S (S (S (S (S (S
+        (S (S (S (S (S (S (S (S (S (S (S (S (S (S (S (S (S (S (S (S (S (S (S
+        (S (S (S (S (S (S (S (S (S (S (S (S (S (S (S (S (S (S (S (S (S (S (S
+        (S (S (S (S (S
+        O))))))))))))))))))))))))))))))))))))))))))))))))))))))))))))))))))))))))
+        (S (S (S (S (S (S (S (S (S (S (S (S (S (S (S (S (S (S (S (S (S (S (S
+        (S (S (S (S (S (S (S (S (S (S (S (S (S (S (S (S (S (S (S (S (S (S (S
+        (S (S (S (S (S (S (S (S (S (S (S (S (S (S (S (S (S (S (S (S (S (S (S
+        (S (S (S (S (S (S (S
+        O))))))))))))))))))))))))))))))))))))))))))))))))))))))))))))))))))))))))))))
+        pdb_line_1)
+  in
+  if str_nonempty segID_2
+  then Ok segID_2
+  else Err (String ((Ascii (false, true, true, false, true, false, true,
+         false)), (String ((Ascii (true, false, false, false, false, true,
+         true, false)), (String ((Ascii (false, false, true, true, false,
+         true, true, false)), (String ((Ascii (true, false, true, false,
+         true, true, true, false)), (String ((Ascii (true, false, true,
+         false, false, true, true, false)), (String ((Ascii (true, false,
+         true, false, false, false, true, false)), (String ((Ascii (false,
+         true, false, false, true, true, true, false)), (String ((Ascii
+         (false, true, false, false, true, true, true, false)), (String
+         ((Ascii (true, true, true, true, false, true, true, false)), (String
+         ((Ascii (false, true, false, false, true, true, true, false)),
+         EmptyString))))))))))))))))))))
+
+(** val get_element_src : string -> string res **)
+
+let get_element_src pdb_line_1 =
+  let first_char_2 =
+    strip
+      (char_at (S (S (S (S (S (S (S (S (S (S (S (S O)))))))))))) pdb_line_1)
+  in
+  let last_char_3 =
+    strip
+      (char_at (S (S (S (S (S (S (S (S (S (S (S (S (S (S (S O)))))))))))))))
+        pdb_line_1)
+  in
+  if str_nonempty first_char_2
+  then if is_substring first_char_2 (String ((Ascii (false, false, false,
+            false, true, true, false, false)), (String ((Ascii (true, false,
+            false, false, true, true, false, false)), (String ((Ascii (false,
+            true, false, false, true, true, false, false)), (String ((Ascii
+            (true, true, false, false, true, true, false, false)), (String
+            ((Ascii (false, false, true, false, true, true, false, false)),
+            (String ((Ascii (true, false, true, false, true, true, false,
+            false)), (String ((Ascii (false, true, true, false, true, true,
+            false, false)), (String ((Ascii (true, true, true, false, true,
+            true, false, false)), (String ((Ascii (false, false, false, true,
+            true, true, false, false)), (String ((Ascii (true, false, false,
+            true, true, true, false, false)), EmptyString))))))))))))))))))))
+       then let elem_4 =
+              char_at (S (S (S (S (S (S (S (S (S (S (S (S (S O)))))))))))))
+                pdb_line_1
+            in
+            Ok (strip elem_4)
+       else if (&&)
+                 (eqb1 first_char_2 (String ((Ascii (false, false, false,
+                   true, false, false, true, false)), EmptyString)))
+                 (str_nonempty last_char_3)
+            then let elem_5 = String ((Ascii (false, false, false, true,
+                   false, false, true, false)), EmptyString)
+                 in
+                 Ok (strip elem_5)
+            else let elem_6 =
+                   slice (S (S (S (S (S (S (S (S (S (S (S (S O)))))))))))) (S
+                     (S (S (S (S (S (S (S (S (S (S (S (S (S O))))))))))))))
+                     pdb_line_1
+                 in
+                 Ok (strip elem_6)
+  else let elem_7 =
+         char_at (S (S (S (S (S (S (S (S (S (S (S (S (S O)))))))))))))
+           pdb_line_1
+       in
+       Ok (strip elem_7)
+
+type form =
+| FPath
+| FPathObj
+| FStr
+| FBytes
+| FListStr
+| FListBytes
+| FNdarrayStr
+| FNdarrayBytes
+
+type input =
+| InText of form * string
+| InLines of form * string list
+
+(** val lines_of : input -> string list res **)
+
+let lines_of = function
+| InText (f, txt) ->
+  (match f with
+   | FPath -> Ok (readlines txt)
+   | FPathObj -> Ok (readlines txt)
+   | FStr ->
+     if Nat.ltb (S (S (S O)))
+          (count_sub (String (nl, (String ((Ascii (true, false, false, false,
+            false, false, true, false)), (String ((Ascii (false, false, true,
+            false, true, false, true, false)), (String ((Ascii (true, true,
+            true, true, false, false, true, false)), (String ((Ascii (true,
+            false, true, true, false, false, true, false)), (String ((Ascii
+            (false, false, false, false, false, true, false, false)),
+            EmptyString)))))))))))) txt)
+     then Ok (split_nl txt)
+     else Err (String ((Ascii (false, true, true, false, false, false, true,
+            false)), (String ((Ascii (true, false, false, true, false, true,
+            true, false)), (String ((Ascii (false, false, true, true, false,
+            true, true, false)), (String ((Ascii (true, false, true, false,
+            false, true, true, false)), (String ((Ascii (false, true, true,
+            true, false, false, true, false)), (String ((Ascii (true, true,
+            true, true, false, true, true, false)), (String ((Ascii (false,
+            false, true, false, true, true, true, false)), (String ((Ascii
+            (false, true, true, false, false, false, true, false)), (String
+            ((Ascii (true, true, true, true, false, true, true, false)),
+            (String ((Ascii (true, false, true, false, true, true, true,
+            false)), (String ((Ascii (false, true, true, true, false, true,
+            true, false)), (String ((Ascii (false, false, true, false, false,
+            true, true, false)), (String ((Ascii (true, false, true, false,
+            false, false, true, false)), (String ((Ascii (false, true, false,
+            false, true, true, true, false)), (String ((Ascii (false, true,
+            false, false, true, true, true, false)), (String ((Ascii (true,
+            true, true, true, false, true, true, false)), (String ((Ascii
+            (false, true, false, false, true, true, true, false)),
+            EmptyString))))))))))))))))))))))))))))))))))
+   | FBytes ->
+     if Nat.ltb (S (S (S O)))
+          (count_sub (String (nl, (String ((Ascii (true, false, false, false,
+            false, false, true, false)), (String ((Ascii (false, false, true,
+            false, true, false, true, false)), (String ((Ascii (true, true,
+            true, true, false, false, true, false)), (String ((Ascii (true,
+            false, true, true, false, false, true, false)), (String ((Ascii
+            (false, false, false, false, false, true, false, false)),
+            EmptyString)))))))))))) txt)
+     then Ok (split_nl txt)
+     else Err (String ((Ascii (false, true, true, false, false, false, true,
+            false)), (String ((Ascii (true, false, false, true, false, true,
+            true, false)), (String ((Ascii (false, false, true, true, false,
+            true, true, false)), (String ((Ascii (true, false, true, false,
+            false, true, true, false)), (String ((Ascii (false, true, true,
+            true, false, false, true, false)), (String ((Ascii (true, true,
+            true, true, false, true, true, false)), (String ((Ascii (false,
+            false, true, false, true, true, true, false)), (String ((Ascii
+            (false, true, true, false, false, false, true, false)), (String
+            ((Ascii (true, true, true, true, false, true, true, false)),
+            (String ((Ascii (true, false, true, false, true, true, true,
+            false)), (String ((Ascii (false, true, true, true, false, true,
+            true, false)), (String ((Ascii (false, false, true, false, false,
+            true, true, false)), (String ((Ascii (true, false, true, false,
+            false, false, true, false)), (String ((Ascii (false, true, false,
+            false, true, true, true, false)), (String ((Ascii (false, true,
+            false, false, true, true, true, false)), (String ((Ascii (true,
+            true, true, true, false, true, true, false)), (String ((Ascii
+            (false, true, false, false, true, true, true, false)),
+            EmptyString))))))))))))))))))))))))))))))))))
+   | _ ->
+     Err (String ((Ascii (false, true, true, false, true, false, true,
+       false)), (String ((Ascii (true, false, false, false, false, true,
+       true, false)), (String ((Ascii (false, false, true, true, false, true,
+       true, false)), (String ((Ascii (true, false, true, false, true, true,
+       true, false)), (String ((Ascii (true, false, true, false, false, true,
+       true, false)), (String ((Ascii (true, false, true, false, false,
+       false, true, false)), (String ((Ascii (false, true, false, false,
+       true, true, true, false)), (String ((Ascii (false, true, false, false,
+       true, true, true, false)), (String ((Ascii (true, true, true, true,
+       false, true, true, false)), (String ((Ascii (false, true, false,
+       false, true, true, true, false)), EmptyString)))))))))))))))))))))
+| InLines (_, ls) ->
+  (match ls with
+   | [] ->
+     Err (String ((Ascii (true, false, false, true, false, false, true,
+       false)), (String ((Ascii (false, true, true, true, false, true, true,
+       false)), (String ((Ascii (false, false, true, false, false, true,
+       true, false)), (String ((Ascii (true, false, true, false, false, true,
+       true, false)), (String ((Ascii (false, false, false, true, true, true,
+       true, false)), (String ((Ascii (true, false, true, false, false,
+       false, true, false)), (String ((Ascii (false, true, false, false,
+       true, true, true, false)), (String ((Ascii (false, true, false, false,
+       true, true, true, false)), (String ((Ascii (true, true, true, true,
+       false, true, true, false)), (String ((Ascii (false, true, false,
+       false, true, true, true, false)), EmptyString))))))))))))))))))))
+   | _ :: _ -> Ok ls)
+
+(** val assoc : string -> (string * 'a1) list -> 'a1 option **)
+
+let rec assoc k = function
+| [] -> None
+| p :: t -> let (k', v0) = p in if eqb1 k k' then Some v0 else assoc k t
+
+(** val parse_field : string -> string -> string -> val0 option res **)
+
+let parse_field line colname coltype =
+  match assoc colname delimiter_src with
+  | Some p ->
+    let (a, b) = p in
+    let data = strip (slice a b line) in
+    bind
+      (if str_nonempty data
+       then Ok (Inl data)
+       else (match assoc colname blank_defaults_src with
+             | Some b0 ->
+               (match b0 with
+                | DConst q0 -> Ok (Inr q0)
+                | DChainFromSegID ->
+                  bind (get_chainID_src line) (fun s -> Ok (Inl s))
+                | DElementGuess ->
+                  bind (get_element_src line) (fun s -> Ok (Inl s)))
+             | None -> Ok (Inl data))) (fun data' ->
+      if eqb1 coltype int_tag_src
+      then (match data' with
+            | Inl s ->
+              (match parse_int s with
+               | NumOk z0 -> Ok (Some (VInt z0))
+               | NumBad ->
+                 Err (String ((Ascii (false, true, true, false, true, false,
+                   true, false)), (String ((Ascii (true, false, false, false,
+                   false, true, true, false)), (String ((Ascii (false, false,
+                   true, true, false, true, true, false)), (String ((Ascii
+                   (true, false, true, false, true, true, true, false)),
+                   (String ((Ascii (true, false, true, false, false, true,
+                   true, false)), (String ((Ascii (true, false, true, false,
+                   false, false, true, false)), (String ((Ascii (false, true,
+                   false, false, true, true, true, false)), (String ((Ascii
+                   (false, true, false, false, true, true, true, false)),
+                   (String ((Ascii (true, true, true, true, false, true,
+                   true, false)), (String ((Ascii (false, true, false, false,
+                   true, true, true, false)), EmptyString))))))))))))))))))))
+               | NumOutOfModel ->
+                 Err (String ((Ascii (true, true, true, true, false, false,
+                   true, false)), (String ((Ascii (true, false, true, false,
+                   true, true, true, false)), (String ((Ascii (false, false,
+                   true, false, true, true, true, false)), (String ((Ascii
+                   (true, true, true, true, false, false, true, false)),
+                   (String ((Ascii (false, true, true, false, false, true,
+                   true, false)), (String ((Ascii (true, false, true, true,
+                   false, false, true, false)), (String ((Ascii (true, true,
+                   true, true, false, true, true, false)), (String ((Ascii
+                   (false, false, true, false, false, true, true, false)),
+                   (String ((Ascii (true, false, true, false, false, true,
+                   true, false)), (String ((Ascii (false, false, true, true,
+                   false, true, true, false)), EmptyString)))))))))))))))))))))
+            | Inr q0 -> Ok (Some (VInt (Z.div q0.qnum (Zpos q0.qden)))))
+      else if eqb1 coltype real_tag_src
+           then (match data' with
+                 | Inl s ->
+                   (match parse_float s with
+                    | NumOk q0 -> Ok (Some (VReal q0))
+                    | NumBad ->
+                      Err (String ((Ascii (false, true, true, false, true,
+                        false, true, false)), (String ((Ascii (true, false,
+                        false, false, false, true, true, false)), (String
+                        ((Ascii (false, false, true, true, false, true, true,
+                        false)), (String ((Ascii (true, false, true, false,
+                        true, true, true, false)), (String ((Ascii (true,
+                        false, true, false, false, true, true, false)),
+                        (String ((Ascii (true, false, true, false, false,
+                        false, true, false)), (String ((Ascii (false, true,
+                        false, false, true, true, true, false)), (String
+                        ((Ascii (false, true, false, false, true, true, true,
+                        false)), (String ((Ascii (true, true, true, true,
+                        false, true, true, false)), (String ((Ascii (false,
+                        true, false, false, true, true, true, false)),
+                        EmptyString))))))))))))))))))))
+                    | NumOutOfModel ->
+                      Err (String ((Ascii (true, true, true, true, false,
+                        false, true, false)), (String ((Ascii (true, false,
+                        true, false, true, true, true, false)), (String
+                        ((Ascii (false, false, true, false, true, true, true,
+                        false)), (String ((Ascii (true, true, true, true,
+                        false, false, true, false)), (String ((Ascii (false,
+                        true, true, false, false, true, true, false)),
+                        (String ((Ascii (true, false, true, true, false,
+                        false, true, false)), (String ((Ascii (true, true,
+                        true, true, false, true, true, false)), (String
+                        ((Ascii (false, false, true, false, false, true,
+                        true, false)), (String ((Ascii (true, false, true,
+                        false, false, true, true, false)), (String ((Ascii
+                        (false, false, true, true, false, true, true,
+                        false)), EmptyString)))))))))))))))))))))
+                 | Inr q0 -> Ok (Some (VReal q0)))
+           else (match data' with
+                 | Inl s -> Ok (Some (VText s))
+                 | Inr _ ->
+                   Err (String ((Ascii (true, true, true, true, false, false,
+                     true, false)), (String ((Ascii (true, false, true,
+                     false, true, true, true, false)), (String ((Ascii
+                     (false, false, true, false, true, true, true, false)),
+                     (String ((Ascii (true, true, true, true, false, false,
+                     true, false)), (String ((Ascii (false, true, true,
+                     false, false, true, true, false)), (String ((Ascii
+                     (true, false, true, true, false, false, true, false)),
+                     (String ((Ascii (true, true, true, true, false, true,
+                     true, false)), (String ((Ascii (false, false, true,
+                     false, false, true, true, false)), (String ((Ascii
+                     (true, false, true, false, false, true, true, false)),
+                     (String ((Ascii (false, false, true, true, false, true,
+                     true, false)), EmptyString))))))))))))))))))))))
+  | None -> Ok None
+
+(** val parse_fields : string -> (string * string) list -> val0 list res **)
+
+let rec parse_fields line = function
+| [] -> Ok []
+| p :: t ->
+  let (cn, ct) = p in
+  bind (parse_field line cn ct) (fun v0 ->
+    bind (parse_fields line t) (fun vs -> Ok
+      (match v0 with
+       | Some x -> x :: vs
+       | None -> vs)))
+
+(** val parse_record : z -> string -> row res **)
+
+let parse_record nmodel line0 =
+  bind (linelength_src line0) (fun line ->
+    bind (parse_fields line col_src) (fun vs -> Ok
+      (app vs ((VInt nmodel) :: []))))
+
+(** val parse_lines : string list -> z -> (row list * z) res **)
+
+let rec parse_lines lines nmodel =
+  match lines with
+  | [] -> Ok ([], nmodel)
+  | l :: t ->
+    if startswith atom_prefix_src l
+    then bind (parse_record nmodel (upto_nl l)) (fun r ->
+           bind (parse_lines t nmodel) (fun rest -> Ok ((r :: (fst rest)),
+             (snd rest))))
+    else if startswith endmdl_prefix_src l
+         then parse_lines t (Z.add nmodel (Zpos XH))
+         else parse_lines t nmodel
+
+(** val parse : input -> (row list * z) res **)
+
+let parse i =
+  bind (lines_of i) (fun ls -> parse_lines ls Z0)
+
+type ftype =
+| TInt
+| TReal
+| TText
+
+(** val wwpdb_cols : ((string * (nat * nat)) * ftype) list **)
+
+let wwpdb_cols =
+  (((String ((Ascii (true, true, false, false, true, true, true, false)),
+    (String ((Ascii (true, false, true, false, false, true, true, false)),
+    (String ((Ascii (false, true, false, false, true, true, true, false)),
+    (String ((Ascii (true, false, false, true, false, true, true, false)),
+    (String ((Ascii (true, false, false, false, false, true, true, false)),
+    (String ((Ascii (false, false, true, true, false, true, true, false)),
+    EmptyString)))))))))))), ((S (S (S (S (S (S (S O))))))), (S (S (S (S (S
+    (S (S (S (S (S (S O))))))))))))), TInt) :: ((((String ((Ascii (false,
+    true, true, true, false, true, true, false)), (String ((Ascii (true,
+    false, false, false, false, true, true, false)), (String ((Ascii (true,
+    false, true, true, false, true, true, false)), (String ((Ascii (true,
+    false, true, false, false, true, true, false)), EmptyString)))))))), ((S
+    (S (S (S (S (S (S (S (S (S (S (S (S O))))))))))))), (S (S (S (S (S (S (S
+    (S (S (S (S (S (S (S (S (S O)))))))))))))))))), TText) :: ((((String
+    ((Ascii (true, false, false, false, false, true, true, false)), (String
+    ((Ascii (false, false, true, true, false, true, true, false)), (String
+    ((Ascii (false, false, true, false, true, true, true, false)), (String
+    ((Ascii (false, false, true, true, false, false, true, false)), (String
+    ((Ascii (true, true, true, true, false, true, true, false)), (String
+    ((Ascii (true, true, false, false, false, true, true, false)),
+    EmptyString)))))))))))), ((S (S (S (S (S (S (S (S (S (S (S (S (S (S (S (S
+    (S O))))))))))))))))), (S (S (S (S (S (S (S (S (S (S (S (S (S (S (S (S (S
+    O))))))))))))))))))), TText) :: ((((String ((Ascii (false, true, false,
+    false, true, true, true, false)), (String ((Ascii (true, false, true,
+    false, false, true, true, false)), (String ((Ascii (true, true, false,
+    false, true, true, true, false)), (String ((Ascii (false, true, true,
+    true, false, false, true, false)), (String ((Ascii (true, false, false,
+    false, false, true, true, false)), (String ((Ascii (true, false, true,
+    true, false, true, true, false)), (String ((Ascii (true, false, true,
+    false, false, true, true, false)), EmptyString)))))))))))))), ((S (S (S
+    (S (S (S (S (S (S (S (S (S (S (S (S (S (S (S O)))))))))))))))))), (S (S
+    (S (S (S (S (S (S (S (S (S (S (S (S (S (S (S (S (S (S
+    O)))))))))))))))))))))), TText) :: ((((String ((Ascii (true, true, false,
+    false, false, true, true, false)), (String ((Ascii (false, false, false,
+    true, false, true, true, false)), (String ((Ascii (true, false, false,
+    false, false, true, true, false)), (String ((Ascii (true, false, false,
+    true, false, true, true, false)), (String ((Ascii (false, true, true,
+    true, false, true, true, false)), (String ((Ascii (true, false, false,
+    true, false, false, true, false)), (String ((Ascii (false, false, true,
+    false, false, false, true, false)), EmptyString)))))))))))))), ((S (S (S
+    (S (S (S (S (S (S (S (S (S (S (S (S (S (S (S (S (S (S (S
+    O)))))))))))))))))))))), (S (S (S (S (S (S (S (S (S (S (S (S (S (S (S (S
+    (S (S (S (S (S (S O)))))))))))))))))))))))), TText) :: ((((String ((Ascii
+    (false, true, false, false, true, true, true, false)), (String ((Ascii
+    (true, false, true, false, false, true, true, false)), (String ((Ascii
+    (true, true, false, false, true, true, true, false)), (String ((Ascii
+    (true, true, false, false, true, false, true, false)), (String ((Ascii
+    (true, false, true, false, false, true, true, false)), (String ((Ascii
+    (true, false, false, false, true, true, true, false)),
+    EmptyString)))))))))))), ((S (S (S (S (S (S (S (S (S (S (S (S (S (S (S (S
+    (S (S (S (S (S (S (S O))))))))))))))))))))))), (S (S (S (S (S (S (S (S (S
+    (S (S (S (S (S (S (S (S (S (S (S (S (S (S (S (S (S
+    O)))))))))))))))))))))))))))), TInt) :: ((((String ((Ascii (true, false,
+    false, true, false, true, true, false)), (String ((Ascii (true, true,
+    false, false, false, false, true, false)), (String ((Ascii (true, true,
+    true, true, false, true, true, false)), (String ((Ascii (false, false,
+    true, false, false, true, true, false)), (String ((Ascii (true, false,
+    true, false, false, true, true, false)), EmptyString)))))))))), ((S (S (S
+    (S (S (S (S (S (S (S (S (S (S (S (S (S (S (S (S (S (S (S (S (S (S (S (S
+    O))))))))))))))))))))))))))), (S (S (S (S (S (S (S (S (S (S (S (S (S (S
+    (S (S (S (S (S (S (S (S (S (S (S (S (S O))))))))))))))))))))))))))))),
+    TText) :: ((((String ((Ascii (false, false, false, true, true, true,
+    true, false)), EmptyString)), ((S (S (S (S (S (S (S (S (S (S (S (S (S (S
+    (S (S (S (S (S (S (S (S (S (S (S (S (S (S (S (S (S
+    O))))))))))))))))))))))))))))))), (S (S (S (S (S (S (S (S (S (S (S (S (S
+    (S (S (S (S (S (S (S (S (S (S (S (S (S (S (S (S (S (S (S (S (S (S (S (S
+    (S O)))))))))))))))))))))))))))))))))))))))), TReal) :: ((((String
+    ((Ascii (true, false, false, true, true, true, true, false)),
+    EmptyString)), ((S (S (S (S (S (S (S (S (S (S (S (S (S (S (S (S (S (S (S
+    (S (S (S (S (S (S (S (S (S (S (S (S (S (S (S (S (S (S (S (S
+    O))))))))))))))))))))))))))))))))))))))), (S (S (S (S (S (S (S (S (S (S
+    (S (S (S (S (S (S (S (S (S (S (S (S (S (S (S (S (S (S (S (S (S (S (S (S
+    (S (S (S (S (S (S (S (S (S (S (S (S
+    O)))))))))))))))))))))))))))))))))))))))))))))))), TReal) :: ((((String
+    ((Ascii (false, true, false, true, true, true, true, false)),
+    EmptyString)), ((S (S (S (S (S (S (S (S (S (S (S (S (S (S (S (S (S (S (S
+    (S (S (S (S (S (S (S (S (S (S (S (S (S (S (S (S (S (S (S (S (S (S (S (S
+    (S (S (S (S O))))))))))))))))))))))))))))))))))))))))))))))), (S (S (S (S
+    (S (S (S (S (S (S (S (S (S (S (S (S (S (S (S (S (S (S (S (S (S (S (S (S
+    (S (S (S (S (S (S (S (S (S (S (S (S (S (S (S (S (S (S (S (S (S (S (S (S
+    (S (S O)))))))))))))))))))))))))))))))))))))))))))))))))))))))),
+    TReal) :: ((((String ((Ascii (true, true, true, true, false, true, true,
+    false)), (String ((Ascii (true, true, false, false, false, true, true,
+    false)), (String ((Ascii (true, true, false, false, false, true, true,
+    false)), EmptyString)))))), ((S (S (S (S (S (S (S (S (S (S (S (S (S (S (S
+    (S (S (S (S (S (S (S (S (S (S (S (S (S (S (S (S (S (S (S (S (S (S (S (S
+    (S (S (S (S (S (S (S (S (S (S (S (S (S (S (S (S
+    O))))))))))))))))))))))))))))))))))))))))))))))))))))))), (S (S (S (S (S
+    (S (S (S (S (S (S (S (S (S (S (S (S (S (S (S (S (S (S (S (S (S (S (S (S
+    (S (S (S (S (S (S (S (S (S (S (S (S (S (S (S (S (S (S (S (S (S (S (S (S
+    (S (S (S (S (S (S (S
+    O)))))))))))))))))))))))))))))))))))))))))))))))))))))))))))))),
+    TReal) :: ((((String ((Ascii (false, false, true, false, true, true,
+    true, false)), (String ((Ascii (true, false, true, false, false, true,
+    true, false)), (String ((Ascii (true, false, true, true, false, true,
+    true, false)), (String ((Ascii (false, false, false, false, true, true,
+    true, false)), EmptyString)))))))), ((S (S (S (S (S (S (S (S (S (S (S (S
+    (S (S (S (S (S (S (S (S (S (S (S (S (S (S (S (S (S (S (S (S (S (S (S (S
+    (S (S (S (S (S (S (S (S (S (S (S (S (S (S (S (S (S (S (S (S (S (S (S (S
+    (S O))))))))))))))))))))))))))))))))))))))))))))))))))))))))))))), (S (S
+    (S (S (S (S (S (S (S (S (S (S (S (S (S (S (S (S (S (S (S (S (S (S (S (S
+    (S (S (S (S (S (S (S (S (S (S (S (S (S (S (S (S (S (S (S (S (S (S (S (S
+    (S (S (S (S (S (S (S (S (S (S (S (S (S (S (S (S
+    O)))))))))))))))))))))))))))))))))))))))))))))))))))))))))))))))))))),
+    TReal) :: ((((String ((Ascii (true, false, true, false, false, true,
+    true, false)), (String ((Ascii (false, false, true, true, false, true,
+    true, false)), (String ((Ascii (true, false, true, false, false, true,
+    true, false)), (String ((Ascii (true, false, true, true, false, true,
+    true, false)), (String ((Ascii (true, false, true, false, false, true,
+    true, false)), (String ((Ascii (false, true, true, true, false, true,
+    true, false)), (String ((Ascii (false, false, true, false, true, true,
+    true, false)), EmptyString)))))))))))))), ((S (S (S (S (S (S (S (S (S (S
+    (S (S (S (S (S (S (S (S (S (S (S (S (S (S (S (S (S (S (S (S (S (S (S (S
+    (S (S (S (S (S (S (S (S (S (S (S (S (S (S (S (S (S (S (S (S (S (S (S (S
+    (S (S (S (S (S (S (S (S (S (S (S (S (S (S (S (S (S (S (S
+    O))))))))))))))))))))))))))))))))))))))))))))))))))))))))))))))))))))))))))))),
+    (S (S (S (S (S (S (S (S (S (S (S (S (S (S (S (S (S (S (S (S (S (S (S (S
+    (S (S (S (S (S (S (S (S (S (S (S (S (S (S (S (S (S (S (S (S (S (S (S (S
+    (S (S (S (S (S (S (S (S (S (S (S (S (S (S (S (S (S (S (S (S (S (S (S (S
+    (S (S (S (S (S (S
+    O)))))))))))))))))))))))))))))))))))))))))))))))))))))))))))))))))))))))))))))))),
+    TText) :: []))))))))))))
+
+(** val segid_cols : nat * nat **)
+
+let segid_cols =
+  ((S (S (S (S (S (S (S (S (S (S (S (S (S (S (S (S (S (S (S (S (S (S (S (S (S
+    (S (S (S (S (S (S (S (S (S (S (S (S (S (S (S (S (S (S (S (S (S (S (S (S
+    (S (S (S (S (S (S (S (S (S (S (S (S (S (S (S (S (S (S (S (S (S (S (S (S
+    O))))))))))))))))))))))))))))))))))))))))))))))))))))))))))))))))))))))))),
+    (S (S (S (S (S (S (S (S (S (S (S (S (S (S (S (S (S (S (S (S (S (S (S (S
+    (S (S (S (S (S (S (S (S (S (S (S (S (S (S (S (S (S (S (S (S (S (S (S (S
+    (S (S (S (S (S (S (S (S (S (S (S (S (S (S (S (S (S (S (S (S (S (S (S (S
+    (S (S (S (S
+    O)))))))))))))))))))))))))))))))))))))))))))))))))))))))))))))))))))))))))))))
+
+(** val pad80 : string -> string **)
+
+let pad80 line =
+  append line
+    (repeat_char (Ascii (false, false, false, false, false, true, false,
+      false))
+      (sub (S (S (S (S (S (S (S (S (S (S (S (S (S (S (S (S (S (S (S (S (S (S
+        (S (S (S (S (S (S (S (S (S (S (S (S (S (S (S (S (S (S (S (S (S (S (S
+        (S (S (S (S (S (S (S (S (S (S (S (S (S (S (S (S (S (S (S (S (S (S (S
+        (S (S (S (S (S (S (S (S (S (S (S (S
+        O))))))))))))))))))))))))))))))))))))))))))))))))))))))))))))))))))))))))))))))))
+        (length line)))
+
+(** val columns : nat -> nat -> string -> string **)
+
+let columns a b line =
+  substring (sub a (S O)) (add (sub b a) (S O)) (pad80 line)
+
+(** val column : nat -> string -> ascii **)
+
+let column k line =
+  match get (sub k (S O)) (pad80 line) with
+  | Some c -> c
+  | None -> Ascii (false, false, false, false, false, true, false, false)
+
+(** val ltrim : string -> string **)
+
+let rec ltrim s = match s with
+| EmptyString -> EmptyString
+| String (c, t) ->
+  if eqb0 c (Ascii (false, false, false, false, false, true, false, false))
+  then ltrim t
+  else s
+
+(** val trim : string -> string **)
+
+let trim s =
+  rev_str EmptyString (ltrim (rev_str EmptyString (ltrim s)))
+
+(** val spec_element : string -> string **)
+
+let spec_element line =
+  let c13 = column (S (S (S (S (S (S (S (S (S (S (S (S (S O))))))))))))) line
+  in
+  let c14 =
+    column (S (S (S (S (S (S (S (S (S (S (S (S (S (S O)))))))))))))) line
+  in
+  let c16 =
+    column (S (S (S (S (S (S (S (S (S (S (S (S (S (S (S (S O))))))))))))))))
+      line
+  in
+  if eqb0 c13 (Ascii (false, false, false, false, false, true, false, false))
+  then trim (String (c14, EmptyString))
+  else if is_digit c13
+       then trim (String (c14, EmptyString))
+       else if (&&)
+                 (eqb0 c13 (Ascii (false, false, false, true, false, false,
+                   true, false)))
+                 (negb
+                   (eqb0 c16 (Ascii (false, false, false, false, false, true,
+                     false, false))))
+            then String ((Ascii (false, false, false, true, false, false,
+                   true, false)), EmptyString)
+            else trim (String (c13, (String (c14, EmptyString))))
+
+(** val spec_field :
+    string -> ((string * (nat * nat)) * ftype) -> val0 res **)
+
+let spec_field line = function
+| (p, ty) ->
+  let (name, p0) = p in
+  let (a, b) = p0 in
+  let txt = trim (columns a b line) in
+  (match ty with
+   | TInt ->
+     (match parse_int txt with
+      | NumOk z0 -> Ok (VInt z0)
+      | NumBad ->
+        Err (String ((Ascii (false, true, true, false, true, false, true,
+          false)), (String ((Ascii (true, false, false, false, false, true,
+          true, false)), (String ((Ascii (false, false, true, true, false,
+          true, true, false)), (String ((Ascii (true, false, true, false,
+          true, true, true, false)), (String ((Ascii (true, false, true,
+          false, false, true, true, false)), (String ((Ascii (true, false,
+          true, false, false, false, true, false)), (String ((Ascii (false,
+          true, false, false, true, true, true, false)), (String ((Ascii
+          (false, true, false, false, true, true, true, false)), (String
+          ((Ascii (true, true, true, true, false, true, true, false)),
+          (String ((Ascii (false, true, false, false, true, true, true,
+          false)), EmptyString))))))))))))))))))))
+      | NumOutOfModel ->
+        Err (String ((Ascii (true, true, true, true, false, false, true,
+          false)), (String ((Ascii (true, false, true, false, true, true,
+          true, false)), (String ((Ascii (false, false, true, false, true,
+          true, true, false)), (String ((Ascii (true, true, true, true,
+          false, false, true, false)), (String ((Ascii (false, true, true,
+          false, false, true, true, false)), (String ((Ascii (true, false,
+          true, true, false, false, true, false)), (String ((Ascii (true,
+          true, true, true, false, true, true, false)), (String ((Ascii
+          (false, false, true, false, false, true, true, false)), (String
+          ((Ascii (true, false, true, false, false, true, true, false)),
+          (String ((Ascii (false, false, true, true, false, true, true,
+          false)), EmptyString)))))))))))))))))))))
+   | TReal ->
+     if str_nonempty txt
+     then (match parse_float txt with
+           | NumOk q0 -> Ok (VReal q0)
+           | NumBad ->
+             Err (String ((Ascii (false, true, true, false, true, false,
+               true, false)), (String ((Ascii (true, false, false, false,
+               false, true, true, false)), (String ((Ascii (false, false,
+               true, true, false, true, true, false)), (String ((Ascii (true,
+               false, true, false, true, true, true, false)), (String ((Ascii
+               (true, false, true, false, false, true, true, false)), (String
+               ((Ascii (true, false, true, false, false, false, true,
+               false)), (String ((Ascii (false, true, false, false, true,
+               true, true, false)), (String ((Ascii (false, true, false,
+               false, true, true, true, false)), (String ((Ascii (true, true,
+               true, true, false, true, true, false)), (String ((Ascii
+               (false, true, false, false, true, true, true, false)),
+               EmptyString))))))))))))))))))))
+           | NumOutOfModel ->
+             Err (String ((Ascii (true, true, true, true, false, false, true,
+               false)), (String ((Ascii (true, false, true, false, true,
+               true, true, false)), (String ((Ascii (false, false, true,
+               false, true, true, true, false)), (String ((Ascii (true, true,
+               true, true, false, false, true, false)), (String ((Ascii
+               (false, true, true, false, false, true, true, false)), (String
+               ((Ascii (true, false, true, true, false, false, true, false)),
+               (String ((Ascii (true, true, true, true, false, true, true,
+               false)), (String ((Ascii (false, false, true, false, false,
+               true, true, false)), (String ((Ascii (true, false, true,
+               false, false, true, true, false)), (String ((Ascii (false,
+               false, true, true, false, true, true, false)),
+               EmptyString)))))))))))))))))))))
+     else if eqb1 name (String ((Ascii (true, true, true, true, false, true,
+               true, false)), (String ((Ascii (true, true, false, false,
+               false, true, true, false)), (String ((Ascii (true, true,
+               false, false, false, true, true, false)), EmptyString))))))
+          then Ok (VReal { qnum = (Zpos XH); qden = XH })
+          else if eqb1 name (String ((Ascii (false, false, true, false, true,
+                    true, true, false)), (String ((Ascii (true, false, true,
+                    false, false, true, true, false)), (String ((Ascii (true,
+                    false, true, true, false, true, true, false)), (String
+                    ((Ascii (false, false, false, false, true, true, true,
+                    false)), EmptyString))))))))
+               then Ok (VReal { qnum = (Zpos (XO (XI (XO XH)))); qden = XH })
+               else Err (String ((Ascii (false, true, true, false, true,
+                      false, true, false)), (String ((Ascii (true, false,
+                      false, false, false, true, true, false)), (String
+                      ((Ascii (false, false, true, true, false, true, true,
+                      false)), (String ((Ascii (true, false, true, false,
+                      true, true, true, false)), (String ((Ascii (true,
+                      false, true, false, false, true, true, false)), (String
+                      ((Ascii (true, false, true, false, false, false, true,
+                      false)), (String ((Ascii (false, true, false, false,
+                      true, true, true, false)), (String ((Ascii (false,
+                      true, false, false, true, true, true, false)), (String
+                      ((Ascii (true, true, true, true, false, true, true,
+                      false)), (String ((Ascii (false, true, false, false,
+                      true, true, true, false)),
+                      EmptyString))))))))))))))))))))
+   | TText ->
+     if str_nonempty txt
+     then Ok (VText txt)
+     else if eqb1 name (String ((Ascii (true, true, false, false, false,
+               true, true, false)), (String ((Ascii (false, false, false,
+               true, false, true, true, false)), (String ((Ascii (true,
+               false, false, false, false, true, true, false)), (String
+               ((Ascii (true, false, false, true, false, true, true, false)),
+               (String ((Ascii (false, true, true, true, false, true, true,
+               false)), (String ((Ascii (true, false, false, true, false,
+               false, true, false)), (String ((Ascii (false, false, true,
+               false, false, false, true, false)), EmptyString))))))))))))))
+          then let seg = trim (columns (fst segid_cols) (snd segid_cols) line)
+               in
+               if str_nonempty seg
+               then Ok (VText seg)
+               else Err (String ((Ascii (false, true, true, false, true,
+                      false, true, false)), (String ((Ascii (true, false,
+                      false, false, false, true, true, false)), (String
+                      ((Ascii (false, false, true, true, false, true, true,
+                      false)), (String ((Ascii (true, false, true, false,
+                      true, true, true, false)), (String ((Ascii (true,
+                      false, true, false, false, true, true, false)), (String
+                      ((Ascii (true, false, true, false, false, false, true,
+                      false)), (String ((Ascii (false, true, false, false,
+                      true, true, true, false)), (String ((Ascii (false,
+                      true, false, false, true, true, true, false)), (String
+                      ((Ascii (true, true, true, true, false, true, true,
+                      false)), (String ((Ascii (false, true, false, false,
+                      true, true, true, false)),
+                      EmptyString))))))))))))))))))))
+          else if eqb1 name (String ((Ascii (true, false, true, false, false,
+                    true, true, false)), (String ((Ascii (false, false, true,
+                    true, false, true, true, false)), (String ((Ascii (true,
+                    false, true, false, false, true, true, false)), (String
+                    ((Ascii (true, false, true, true, false, true, true,
+                    false)), (String ((Ascii (true, false, true, false,
+                    false, true, true, false)), (String ((Ascii (false, true,
+                    true, true, false, true, true, false)), (String ((Ascii
+                    (false, false, true, false, true, true, true, false)),
+                    EmptyString))))))))))))))
+               then Ok (VText (spec_element line))
+               else Ok (VText txt))
+
+(** val spec_row : string -> row res **)
+
+let spec_row line =
+  if Nat.ltb (S (S (S (S (S (S (S (S (S (S (S (S (S (S (S (S (S (S (S (S (S
+       (S (S (S (S (S (S (S (S (S (S (S (S (S (S (S (S (S (S (S (S (S (S (S
+       (S (S (S (S (S (S (S (S (S (S (S (S (S (S (S (S (S (S (S (S (S (S (S
+       (S (S (S (S (S (S (S (S (S (S (S (S (S
+       O))))))))))))))))))))))))))))))))))))))))))))))))))))))))))))))))))))))))))))))))
+       (length line)
+  then Err (String ((Ascii (false, true, true, false, true, false, true,
+         false)), (String ((Ascii (true, false, false, false, false, true,
+         true, false)), (String ((Ascii (false, false, true, true, false,
+         true, true, false)), (String ((Ascii (true, false, true, false,
+         true, true, true, false)), (String ((Ascii (true, false, true,
+         false, false, true, true, false)), (String ((Ascii (true, false,
+         true, false, false, false, true, false)), (String ((Ascii (false,
+         true, false, false, true, true, true, false)), (String ((Ascii
+         (false, true, false, false, true, true, true, false)), (String
+         ((Ascii (true, true, true, true, false, true, true, false)), (String
+         ((Ascii (false, true, false, false, true, true, true, false)),
+         EmptyString))))))))))))))))))))
+  else bind (mapM (spec_field line) wwpdb_cols) (fun vs -> Ok
+         (app vs ((VInt Z0) :: [])))
+
+(** val is_ATOM : string -> bool **)
+
+let is_ATOM l =
+  prefix (String ((Ascii (true, false, false, false, false, false, true,
+    false)), (String ((Ascii (false, false, true, false, true, false, true,
+    false)), (String ((Ascii (true, true, true, true, false, false, true,
+    false)), (String ((Ascii (true, false, true, true, false, false, true,
+    false)), EmptyString)))))))) l
+
+(** val spec_table : string list -> row list res **)
+
+let spec_table lines =
+  mapM spec_row (map upto_nl (filter is_ATOM lines))
+
+(** val vval : val0 -> v **)
+
+let vval = function
+| VInt z0 ->
+  VL ((VS (String ((Ascii (true, false, false, true, false, false, true,
+    false)), EmptyString))) :: ((VZ z0) :: []))
+| VReal q0 ->
+  VL ((VS (String ((Ascii (false, true, false, false, true, false, true,
+    false)), EmptyString))) :: ((VZ q0.qnum) :: ((VZ (Zpos q0.qden)) :: [])))
+| VText s ->
+  VL ((VS (String ((Ascii (false, false, true, false, true, false, true,
+    false)), EmptyString))) :: ((VS s) :: []))
+| VBlob ->
+  VL ((VS (String ((Ascii (false, true, false, false, false, false, true,
+    false)), EmptyString))) :: [])
+| VNull ->
+  VL ((VS (String ((Ascii (false, true, true, true, false, false, true,
+    false)), EmptyString))) :: [])
+
+(** val vrow : row -> v **)
+
+let vrow r =
+  VL (map vval r)
+
+(** val vrows : row list -> v **)
+
+let vrows rs =
+  VL (map vrow rs)
+
+(** val form_of : string -> form **)
+
+let form_of s =
+  if eqb1 s (String ((Ascii (false, false, false, false, true, true, true,
+       false)), (String ((Ascii (true, false, false, false, false, true,
+       true, false)), (String ((Ascii (false, false, true, false, true, true,
+       true, false)), (String ((Ascii (false, false, false, true, false,
+       true, true, false)), EmptyString))))))))
+  then FPath
+  else if eqb1 s (String ((Ascii (false, false, false, false, true, false,
+            true, false)), (String ((Ascii (true, false, false, false, false,
+            true, true, false)), (String ((Ascii (false, false, true, false,
+            true, true, true, false)), (String ((Ascii (false, false, false,
+            true, false, true, true, false)), EmptyString))))))))
+       then FPathObj
+       else if eqb1 s (String ((Ascii (true, true, false, false, true, true,
+                 true, false)), (String ((Ascii (false, false, true, false,
+                 true, true, true, false)), (String ((Ascii (false, true,
+                 false, false, true, true, true, false)), EmptyString))))))
+            then FStr
+            else if eqb1 s (String ((Ascii (false, true, false, false, false,
+                      true, true, false)), (String ((Ascii (true, false,
+                      false, true, true, true, true, false)), (String ((Ascii
+                      (false, false, true, false, true, true, true, false)),
+                      (String ((Ascii (true, false, true, false, false, true,
+                      true, false)), (String ((Ascii (true, true, false,
+                      false, true, true, true, false)), EmptyString))))))))))
+                 then FBytes
+                 else if eqb1 s (String ((Ascii (false, false, true, true,
+                           false, true, true, false)), (String ((Ascii (true,
+                           false, false, true, false, true, true, false)),
+                           (String ((Ascii (true, true, false, false, true,
+                           true, true, false)), (String ((Ascii (false,
+                           false, true, false, true, true, true, false)),
+                           (String ((Ascii (true, true, true, true, true,
+                           false, true, false)), (String ((Ascii (true, true,
+                           false, false, true, true, true, false)), (String
+                           ((Ascii (false, false, true, false, true, true,
+                           true, false)), (String ((Ascii (false, true,
+                           false, false, true, true, true, false)),
+                           EmptyString))))))))))))))))
+                      then FListStr
+                      else if eqb1 s (String ((Ascii (false, false, true,
+                                true, false, true, true, false)), (String
+                                ((Ascii (true, false, false, true, false,
+                                true, true, false)), (String ((Ascii (true,
+                                true, false, false, true, true, true,
+                                false)), (String ((Ascii (false, false, true,
+                                false, true, true, true, false)), (String
+                                ((Ascii (true, true, true, true, true, false,
+                                true, false)), (String ((Ascii (false, true,
+                                false, false, false, true, true, false)),
+                                (String ((Ascii (true, false, false, true,
+                                true, true, true, false)), (String ((Ascii
+                                (false, false, true, false, true, true, true,
+                                false)), (String ((Ascii (true, false, true,
+                                false, false, true, true, false)), (String
+                                ((Ascii (true, true, false, false, true,
+                                true, true, false)),
+                                EmptyString))))))))))))))))))))
+                           then FListBytes
+                           else if eqb1 s (String ((Ascii (false, true, true,
+                                     true, false, true, true, false)),
+                                     (String ((Ascii (false, false, true,
+                                     false, false, true, true, false)),
+                                     (String ((Ascii (true, false, false,
+                                     false, false, true, true, false)),
+                                     (String ((Ascii (false, true, false,
+                                     false, true, true, true, false)),
+                                     (String ((Ascii (false, true, false,
+                                     false, true, true, true, false)),
+                                     (String ((Ascii (true, false, false,
+                                     false, false, true, true, false)),
+                                     (String ((Ascii (true, false, false,
+                                     true, true, true, true, false)), (String
+                                     ((Ascii (true, true, true, true, true,
+                                     false, true, false)), (String ((Ascii
+                                     (true, true, false, false, true, true,
+                                     true, false)), (String ((Ascii (false,
+                                     false, true, false, true, true, true,
+                                     false)), (String ((Ascii (false, true,
+                                     false, false, true, true, true, false)),
+                                     EmptyString))))))))))))))))))))))
+                                then FNdarrayStr
+                                else FNdarrayBytes
+
+(** val run_parse : string -> v list -> v option **)
+
+let run_parse cmd a =
+  if eqb1 cmd (String ((Ascii (false, false, false, false, true, true, true,
+       false)), (String ((Ascii (true, false, false, false, false, true,
+       true, false)), (String ((Ascii (false, true, false, false, true, true,
+       true, false)), (String ((Ascii (true, true, false, false, true, true,
+       true, false)), (String ((Ascii (true, false, true, false, false, true,
+       true, false)), (String ((Ascii (false, true, true, true, false, true,
+       false, false)), (String ((Ascii (false, false, true, false, true,
+       true, true, false)), (String ((Ascii (true, false, true, false, false,
+       true, true, false)), (String ((Ascii (false, false, false, true, true,
+       true, true, false)), (String ((Ascii (false, false, true, false, true,
+       true, true, false)), EmptyString))))))))))))))))))))
+  then Some
+         (vres
+           (bind
+             (parse (InText ((form_of (getS (nth O a (VZ Z0)))),
+               (getS (nth (S O) a (VZ Z0)))))) (fun r -> Ok (VL
+             ((vrows (fst r)) :: ((VZ (snd r)) :: []))))))
+  else if eqb1 cmd (String ((Ascii (false, false, false, false, true, true,
+            true, false)), (String ((Ascii (true, false, false, false, false,
+            true, true, false)), (String ((Ascii (false, true, false, false,
+            true, true, true, false)), (String ((Ascii (true, true, false,
+            false, true, true, true, false)), (String ((Ascii (true, false,
+            true, false, false, true, true, false)), (String ((Ascii (false,
+            true, true, true, false, true, false, false)), (String ((Ascii
+            (false, false, true, true, false, true, true, false)), (String
+            ((Ascii (true, false, false, true, false, true, true, false)),
+            (String ((Ascii (false, true, true, true, false, true, true,
+            false)), (String ((Ascii (true, false, true, false, false, true,
+            true, false)), (String ((Ascii (true, true, false, false, true,
+            true, true, false)), EmptyString))))))))))))))))))))))
+       then Some
+              (vres
+                (bind
+                  (parse (InLines ((form_of (getS (nth O a (VZ Z0)))),
+                    (map getS (getL (nth (S O) a (VZ Z0))))))) (fun r -> Ok
+                  (VL ((vrows (fst r)) :: ((VZ (snd r)) :: []))))))
+       else if eqb1 cmd (String ((Ascii (true, true, false, false, true,
+                 true, true, false)), (String ((Ascii (false, false, false,
+                 false, true, true, true, false)), (String ((Ascii (true,
+                 false, true, false, false, true, true, false)), (String
+                 ((Ascii (true, true, false, false, false, true, true,
+                 false)), (String ((Ascii (false, true, true, true, false,
+                 true, false, false)), (String ((Ascii (false, false, false,
+                 false, true, true, true, false)), (String ((Ascii (true,
+                 false, false, false, false, true, true, false)), (String
+                 ((Ascii (false, true, false, false, true, true, true,
+                 false)), (String ((Ascii (true, true, false, false, true,
+                 true, true, false)), (String ((Ascii (true, false, true,
+                 false, false, true, true, false)), (String ((Ascii (false,
+                 true, true, true, false, true, false, false)), (String
+                 ((Ascii (false, false, true, false, true, true, true,
+                 false)), (String ((Ascii (true, false, false, false, false,
+                 true, true, false)), (String ((Ascii (false, true, false,
+                 false, false, true, true, false)), (String ((Ascii (false,
+                 false, true, true, false, true, true, false)), (String
+                 ((Ascii (true, false, true, false, false, true, true,
+                 false)), EmptyString))))))))))))))))))))))))))))))))
+            then Some
+                   (vres
+                     (bind (spec_table (map getS (getL (nth O a (VZ Z0)))))
+                       (fun rs -> Ok (vrows rs))))
+            else if eqb1 cmd (String ((Ascii (true, true, false, false, true,
+                      true, true, false)), (String ((Ascii (false, false,
+                      false, false, true, true, true, false)), (String
+                      ((Ascii (true, false, true, false, false, true, true,
+                      false)), (String ((Ascii (true, true, false, false,
+                      false, true, true, false)), (String ((Ascii (false,
+                      true, true, true, false, true, false, false)), (String
+                      ((Ascii (false, false, false, false, true, true, true,
+                      false)), (String ((Ascii (true, false, false, false,
+                      false, true, true, false)), (String ((Ascii (false,
+                      true, false, false, true, true, true, false)), (String
+                      ((Ascii (true, true, false, false, true, true, true,
+                      false)), (String ((Ascii (true, false, true, false,
+                      false, true, true, false)), (String ((Ascii (false,
+                      true, true, true, false, true, false, false)), (String
+                      ((Ascii (false, true, false, false, true, true, true,
+                      false)), (String ((Ascii (true, true, true, true,
+                      false, true, true, false)), (String ((Ascii (true,
+                      true, true, false, true, true, true, false)),
+                      EmptyString))))))))))))))))))))))))))))
+                 then Some
+                        (vres
+                          (bind (spec_row (getS (nth O a (VZ Z0)))) (fun r ->
+                            Ok (vrow r))))
+                 else if eqb1 cmd (String ((Ascii (false, false, false,
+                           false, true, true, true, false)), (String ((Ascii
+                           (true, false, false, false, false, true, true,
+                           false)), (String ((Ascii (false, true, false,
+                           false, true, true, true, false)), (String ((Ascii
+                           (true, true, false, false, true, true, true,
+                           false)), (String ((Ascii (true, false, true,
+                           false, false, true, true, false)), (String ((Ascii
+                           (false, true, true, true, false, true, false,
+                           false)), (String ((Ascii (true, false, true,
+                           false, false, true, true, false)), (String ((Ascii
+                           (false, false, true, true, false, true, true,
+                           false)), (String ((Ascii (true, false, true,
+                           false, false, true, true, false)), (String ((Ascii
+                           (true, false, true, true, false, true, true,
+                           false)), (String ((Ascii (true, false, true,
+                           false, false, true, true, false)), (String ((Ascii
+                           (false, true, true, true, false, true, true,
+                           false)), (String ((Ascii (false, false, true,
+                           false, true, true, true, false)),
+                           EmptyString))))))))))))))))))))))))))
+                      then Some
+                             (vres
+                               (bind
+                                 (get_element_src (getS (nth O a (VZ Z0))))
+                                 (fun s -> Ok (VS s))))
+                      else None
 
 (** val vresS : string res -> v **)
 
@@ -1329,24 +3174,28 @@ let run = function
         (match run_scores cmd args with
          | Some r -> r
          | None ->
-           vErr (String ((Ascii (true, false, true, false, true, true, true,
-             false)), (String ((Ascii (false, true, true, true, false, true,
-             true, false)), (String ((Ascii (true, true, false, true, false,
-             true, true, false)), (String ((Ascii (false, true, true, true,
-             false, true, true, false)), (String ((Ascii (true, true, true,
-             true, false, true, true, false)), (String ((Ascii (true, true,
-             true, false, true, true, true, false)), (String ((Ascii (false,
-             true, true, true, false, true, true, false)), (String ((Ascii
-             (true, false, true, true, false, true, false, false)), (String
-             ((Ascii (true, true, false, false, false, true, true, false)),
-             (String ((Ascii (true, true, true, true, false, true, true,
-             false)), (String ((Ascii (true, false, true, true, false, true,
-             true, false)), (String ((Ascii (true, false, true, true, false,
-             true, true, false)), (String ((Ascii (true, false, false, false,
-             false, true, true, false)), (String ((Ascii (false, true, true,
-             true, false, true, true, false)), (String ((Ascii (false, false,
-             true, false, false, true, true, false)),
-             EmptyString)))))))))))))))))))))))))))))))
+           (match run_parse cmd args with
+            | Some r -> r
+            | None ->
+              vErr (String ((Ascii (true, false, true, false, true, true,
+                true, false)), (String ((Ascii (false, true, true, true,
+                false, true, true, false)), (String ((Ascii (true, true,
+                false, true, false, true, true, false)), (String ((Ascii
+                (false, true, true, true, false, true, true, false)), (String
+                ((Ascii (true, true, true, true, false, true, true, false)),
+                (String ((Ascii (true, true, true, false, true, true, true,
+                false)), (String ((Ascii (false, true, true, true, false,
+                true, true, false)), (String ((Ascii (true, false, true,
+                true, false, true, false, false)), (String ((Ascii (true,
+                true, false, false, false, true, true, false)), (String
+                ((Ascii (true, true, true, true, false, true, true, false)),
+                (String ((Ascii (true, false, true, true, false, true, true,
+                false)), (String ((Ascii (true, false, true, true, false,
+                true, true, false)), (String ((Ascii (true, false, false,
+                false, false, true, true, false)), (String ((Ascii (false,
+                true, true, true, false, true, true, false)), (String ((Ascii
+                (false, false, true, false, false, true, true, false)),
+                EmptyString))))))))))))))))))))))))))))))))
       | _ ->
         vErr (String ((Ascii (false, true, false, false, false, true, true,
           false)), (String ((Ascii (true, false, false, false, false, true,
